@@ -30,7 +30,12 @@ ASSUMPTIONS = ["feature values are integers, bin edges np.linspace(lo, hi, nb+1)
                "'the mean signal over samples whose feature falls in the bin' of a visited bin holding NO signal sample, or holding a NaN signal value, is NaN (the arithmetic mean as np.mean defines it); 0.0 is not accepted",
                "decode: each unit's rate is paired with the count of the unit of the SAME key; when the keys of the tuning curves and of the group are not the same sequence the only accepted outcomes are the "
                "documented RuntimeError or (same key set) the posterior paired by key; different key sets must raise RuntimeError",
-               "tuning curves passed to decode are positive rationals with a small common denominator; counts are integers (pre-binned TsdFrame holds integer counts)"]
+               "tuning curves passed to decode are positive rationals with a small common denominator; counts are integers (pre-binned TsdFrame holds integer counts)",
+               "argument forms: the outcome depends only on the instants, values, epochs and keys an argument denotes, not on its container, dtype (when the dtype holds the values exactly), "
+               "time unit, time origin, positional / keyword spelling or the history of the object; an explicit None for a parameter whose documented default is None is the same call as leaving it out; "
+               "a form outside the documented signature (np.int64 nb_bins, np.float32 / np.int64 / 0-d bin_size, upper-case time_units) may be refused with a clean TypeError / ValueError, an answer must satisfy the statement; "
+               "a feature value NaN / +inf / -inf falls in no bin; the mean of signal samples holding an infinity of one sign is that infinity, of both signs NaN; float32 signals are drawn in {-1,0,1} "
+               "so that the float32 mean stays within the continuous oracle's 1e-6; with no unit the posterior is the normalised prior"]
 
 U = 1953125  # 2^-9 s in ticks
 
@@ -43,8 +48,8 @@ def _nap():
 # ----------------------------------------------------------------------------------------------------------------
 # statement-level oracles (brute force, independent of the model)
 def obin(v, lo, hi, nb):
-    """bin of value v for nb equal bins over [lo, hi]: half-open, last closed; None outside"""
-    if v < lo or v > hi:
+    """bin of value v for nb equal bins over [lo, hi]: half-open, last closed; None outside (NaN, +inf, -inf fall in no bin)"""
+    if v != v or v < lo or v > hi:
         return None
     if v == hi:
         return nb - 1
@@ -191,6 +196,434 @@ def pick_bins(rng, vals_for_inferred):
     return None
 
 
+def pick_explicit(rng):
+    while True:
+        nb = rng.choice([1, 2, 2, 3, 4])
+        lo, hi = rng.choice([(0, 4), (1, 3), (0, 3), (0, 6), (-1, 3), (0, 2), (1, 2)])
+        if dyadic(lo, hi, nb):
+            return lo, hi, nb, True
+
+
+# ----------------------------------------------------------------------------------------------------------------
+# WIDENING (argument forms).  A case may carry c["form"]: the SAME mathematical input (instants in ticks, values, epochs, keys)
+# handed to the library in another of the forms the public API accepts.  Legacy cases carry no form and are built exactly as before;
+# the oracles are the same for both.
+V = 64 * U        # 2^-3 s = 125 ms: a whole number of ms and of us (integer-dtype time arrays)
+W = 512 * U       # 1 s (integer-dtype arrays in seconds, Python int scalars)
+BIG = 10**14      # 1e5 s: a multiple of U, V and W; 1e5 + k 2^-9 is exact in float64
+INF = float("inf")
+
+T_FORMS = ("nd", "list", "tuple", "tsindex", "tprop", "index", "ms", "us", "f32", "ms_int", "us_uint", "s_int")
+D_FORMS = ("float64", "float32", "int64", "int32", "int16", "int8", "uint8", "uint16", "uint32", "uint64", "bool", "pylist")
+EP_FORMS = ("nd", "list", "kw", "pairs", "scalar", "npscalar", "df", "series", "copy", "meta", "tsindex", "ms", "us", "ms_int", "us_uint", "s_int",
+            "intersect", "union", "saveload")
+KEYSETS = ([7, 2, 5], [0, 1, 2], [10, 2, 33], [100, 9, 10])
+_TMP = {"dir": None, "n": 0}
+
+
+def _saveload(nap, obj, stem):
+    """history: the object written to an .npz file and read back"""
+    import os
+    import tempfile
+    if _TMP["dir"] is None:
+        os.makedirs(C.CACHE, exist_ok=True)
+        _TMP["dir"] = tempfile.mkdtemp(prefix="c17-", dir=C.CACHE)
+    _TMP["n"] += 1
+    p = os.path.join(_TMP["dir"], "%s%d.npz" % (stem, _TMP["n"]))
+    obj.save(p)
+    out = nap.load_file(p)
+    os.remove(p)
+    return out
+
+
+def _cleanup_tmp():
+    import shutil
+    if _TMP["dir"] is not None:
+        shutil.rmtree(_TMP["dir"], ignore_errors=True)
+        _TMP["dir"] = None
+
+
+def shift(x, mul, off):
+    """the time frame of a case: every tick t becomes t * mul + off (nested lists / tuples of ticks)"""
+    if x is None:
+        return None
+    if isinstance(x, (list, tuple)):
+        return type(x)(shift(v, mul, off) for v in x)
+    return x * mul + off
+
+
+def draw_frame(frng):
+    """lattice 2^-9 s, 2^-3 s (whole ms / us) or 1 s; origin at 0, straddling 0, all negative, or 1e5 s away"""
+    mul = frng.choice([1, 1, 64, 64, 512])
+    off = frng.choice([0, 0, -6 * U * mul, -40 * U * mul, BIG])
+    return mul, off
+
+
+def frame_name(mul, off):
+    return "lattice=%s,origin=%s" % ({1: "2^-9s", 64: "125ms", 512: "1s"}[mul], "0" if off == 0 else "1e5s" if off == BIG else "straddles_0" if off == -6 * U * mul else "negative")
+
+
+def _int_times(ticks, form):
+    """integer-dtype array (+ unit) holding exactly these instants, or None"""
+    if not len(ticks):
+        return None
+    if form == "ms_int" and all(t % 10**6 == 0 for t in ticks):
+        return np.array([t // 10**6 for t in ticks], dtype=np.int64), "ms"
+    if form == "us_uint" and all(t % 1000 == 0 and t >= 0 for t in ticks):
+        return np.array([t // 1000 for t in ticks], dtype=np.uint64), "us"
+    if form == "s_int" and all(t % 10**9 == 0 for t in ticks):
+        v = [t // 10**9 for t in ticks]
+        return np.array(v, dtype=np.uint8 if min(v) >= 0 and max(v) < 256 else np.int32), "s"
+    return None
+
+
+def t_arg(nap, ticks, form):
+    """(t, time_units, form used): the instants `ticks` (ns) as the time argument of a constructor in the requested form; a form that
+    cannot hold these instants exactly falls back to the float64 ndarray in seconds ('nd', the legacy form)"""
+    import pandas as pd
+    ticks = [int(t) for t in ticks]
+    a = G.arr(ticks)
+    if form == "list":
+        if ticks and all(t % 10**9 == 0 for t in ticks):
+            return [t // 10**9 for t in ticks], "s", "list_of_int"
+        return a.tolist(), "s", form
+    if form == "tuple":
+        return tuple(a.tolist()), "s", form
+    if form == "tsindex":
+        return nap.Ts(a).index, "s", form            # another object's TsIndex
+    if form == "tprop":
+        return nap.Ts(a).t, "s", form
+    if form == "index" and ticks:
+        return pd.Index(a), "s", form
+    if form == "ms":
+        return np.asarray(ticks, dtype=np.float64) / 1e6, "ms", form
+    if form == "us":
+        return np.asarray(ticks, dtype=np.float64) / 1e3, "us", form
+    if form == "f32" and ticks and np.all(a.astype(np.float32).astype(np.float64) == a):
+        return a.astype(np.float32), "s", form
+    it = _int_times(ticks, form)
+    if it is not None:
+        return it[0], it[1], form
+    return a, "s", "nd"
+
+
+def d_arg(vals, form):
+    """(d, form used): data of the requested dtype (vals: list, or list of rows); a dtype that cannot hold these values exactly falls back to float64"""
+    a = np.array(vals, dtype=np.float64)
+    if form == "float64":
+        return a, form
+    flat = a.reshape(-1)
+    fin = bool(np.all(np.isfinite(flat)))
+    if form == "pylist":
+        if fin and np.all(flat == np.round(flat)):
+            return a.astype(np.int64).tolist(), "pylist_of_int"
+        return a.tolist(), "pylist_of_float"
+    dt = np.dtype(form)
+    if dt.kind == "f":
+        ok = np.array_equal(a.astype(dt).astype(np.float64), a, equal_nan=True)
+    elif not fin or not np.all(flat == np.round(flat)):
+        ok = False
+    elif dt.kind == "b":
+        ok = bool(np.all((flat == 0) | (flat == 1)))
+    else:
+        info = np.iinfo(dt)
+        ok = bool(np.all((flat >= info.min) & (flat <= info.max)))
+    if ok:
+        return a.astype(dt), form
+    return a, "float64"
+
+
+def iset_form(nap, ep, form):
+    """(IntervalSet, form used): the canonical interval set `ep` (ticks) built in the requested form (fallback: two float64 ndarrays, the legacy form)"""
+    import pandas as pd
+    ep = [(int(s), int(e)) for s, e in ep]
+    s, e = [a for a, _ in ep], [b for _, b in ep]
+    S, E = G.arr(s), G.arr(e)
+    n = len(ep)
+    if form == "list":
+        return nap.IntervalSet(S.tolist(), E.tolist()), form
+    if form == "kw":
+        return nap.IntervalSet(end=E, start=S), form
+    if form == "pairs" and n:
+        return nap.IntervalSet(np.array([S, E]).T), form
+    if form == "scalar" and n == 1:
+        a, b = float(S[0]), float(E[0])
+        if a == int(a) and b == int(b):
+            return nap.IntervalSet(int(a), int(b)), "scalar_int"
+        return nap.IntervalSet(a, b), form
+    if form == "npscalar" and n == 1:
+        return nap.IntervalSet(np.float64(S[0]), np.array(E[0])), form          # numpy scalar, 0-d array
+    if form == "df" and n:
+        return nap.IntervalSet(pd.DataFrame({"start": S, "end": E})), form
+    if form == "series" and n:
+        return nap.IntervalSet(pd.Series(S), pd.Series(E)), form
+    if form == "copy":
+        return nap.IntervalSet(nap.IntervalSet(S, E)), form
+    if form == "meta" and n:
+        return nap.IntervalSet(S, E, metadata={"label": ["e%d" % i for i in range(n)], "w": list(range(n))}), form
+    if form == "tsindex":
+        return nap.IntervalSet(nap.Ts(S).index, nap.Ts(E).index), form
+    if form == "ms":
+        return nap.IntervalSet(np.asarray(s, dtype=np.float64) / 1e6, np.asarray(e, dtype=np.float64) / 1e6, time_units="ms"), form
+    if form == "us":
+        return nap.IntervalSet(np.asarray(s, dtype=np.float64) / 1e3, np.asarray(e, dtype=np.float64) / 1e3, "us"), form
+    if form in ("ms_int", "us_uint", "s_int"):
+        a, b = _int_times(s, form), _int_times(e, form)
+        if a is not None and b is not None:
+            return nap.IntervalSet(a[0], b[0], time_units=a[1]), form
+    if form == "intersect" and n:
+        return nap.IntervalSet(S[0] - 1.0, E[-1] + 1.0).intersect(nap.IntervalSet(S, E)), form
+    if form == "union" and n >= 2:
+        return nap.IntervalSet(S[:1], E[:1]).union(nap.IntervalSet(S[1:], E[1:])), form
+    if form == "saveload" and n:
+        return _saveload(nap, nap.IntervalSet(S, E), "ep"), form
+    return nap.IntervalSet(S, E), "nd"
+
+
+def form_mismatch(res, what, form, inp, got, want):
+    """an input object built in another form (or after a history) is not the object the case describes: the property's operation would be
+    judged on another input; reported on its own key"""
+    res.violations.append({"key": {"op": "input_form", "object": what}, "what": "the %s built in form %r does not hold the instants / values / support of the case" % (what, form),
+                           "input": inp, "impl": got, "expected": want})
+
+
+def checked_iset(res, nap, ep, form, inp, what="IntervalSet"):
+    obj, used = iset_form(nap, ep, form)
+    res.count("form:iset=" + used)
+    if ep_ticks(obj) != [(int(s), int(e)) for s, e in ep]:
+        form_mismatch(res, what, used, inp, ep_ticks(obj), ep)
+        obj = iset_obj(nap, ep)
+    return obj
+
+
+def draw_group_form(frng):
+    return {"member": frng.choice(["ts", "ts", "tsd", "mixed"]), "t": frng.choice(T_FORMS), "key": frng.choice(["int", "int", "str", "float", "npint"]),
+            "container": frng.choice(["dict", "dict", "meta", "bypass", "default_support", "restricted", "sliced", "list", "saveload", "arrays"]),
+            "order": frng.choice(["given", "sorted", "reversed"])}
+
+
+def build_group(res, nap, units, keys, gf, wide, inp):
+    """TsGroup holding unit u under the key keys[u] (int), built as gf says; `wide` = (start, end) ticks of its time support"""
+    sup = iset_obj(nap, [wide])
+    n = len(units)
+    cont = gf["container"]
+    if n == 0:
+        cont = "empty"
+    elif cont == "list" and sorted(keys) != list(range(n)):
+        cont = "dict"
+    elif cont == "default_support" and not (any(len(sp) for sp in units) and all(len(set(sp)) != 1 for sp in units)):
+        cont = "dict"       # a member with one distinct timestamp has an empty default support (known quirk)
+    kf = {"int": int, "str": str, "float": float, "npint": np.int64}[gf["key"]]
+    order = {"given": list(range(n)), "sorted": sorted(range(n), key=lambda u: keys[u]), "reversed": sorted(range(n), key=lambda u: -keys[u])}[gf["order"]]
+    tused = set()
+
+    def member(u, msup=None):
+        t, tu, used = t_arg(nap, units[u], gf["t"])
+        tused.add(used)
+        if gf["member"] == "tsd" or (gf["member"] == "mixed" and u % 2 == 0):
+            return nap.Tsd(t, np.arange(len(units[u]), dtype=np.float64), time_units=tu, time_support=msup)
+        return nap.Ts(t, time_units=tu, time_support=msup)
+    if cont == "empty":
+        g = nap.TsGroup({}, time_support=sup)
+    elif cont == "meta":
+        g = nap.TsGroup({kf(keys[u]): member(u) for u in order}, time_support=sup, metadata={"lab": ["u%d" % i for i in range(n)], "depth": [float(i) for i in range(n)]})
+    elif cont == "bypass":
+        g = nap.TsGroup({kf(keys[u]): member(u, sup) for u in order}, time_support=sup, bypass_check=True)
+    elif cont == "default_support":
+        g = nap.TsGroup({kf(keys[u]): member(u) for u in order})
+    elif cont == "restricted":
+        g = nap.TsGroup({kf(keys[u]): member(u) for u in order}, time_support=iset_obj(nap, [(wide[0] - W, wide[1] + W)])).restrict(sup)
+    elif cont == "sliced":
+        d = {kf(keys[u]): member(u) for u in order}
+        d[kf(999)] = nap.Ts(G.arr([wide[0], wide[1]]))
+        g = nap.TsGroup(d, time_support=sup)[[int(keys[u]) for u in order]]
+    elif cont == "list":
+        g = nap.TsGroup([member(keys.index(i)) for i in range(n)], time_support=sup)
+    elif cont == "saveload":
+        g = _saveload(nap, nap.TsGroup({kf(keys[u]): member(u) for u in order}, time_support=sup), "grp")
+    elif cont == "arrays":
+        tu = gf["t"] if gf["t"] in ("ms", "us") else "s"
+        f = {"s": 1e9, "ms": 1e6, "us": 1e3}[tu]
+        g = nap.TsGroup({kf(keys[u]): (G.arr(units[u]) if tu == "s" else np.asarray(units[u], dtype=np.float64) / f) for u in order}, time_support=sup, time_units=tu)
+        tused.add("array_members_" + tu)
+    else:
+        g = nap.TsGroup({kf(keys[u]): member(u) for u in order}, time_support=sup)
+    res.count("form:group_container=" + cont)
+    res.count("form:group_members=" + gf["member"])
+    res.count("form:group_keys=" + gf["key"])
+    for used in tused:
+        res.count("form:group_t=" + used)
+    got = {int(k): [C.to_ns(x) for x in g[k].t] for k in g.keys()}
+    want = {int(keys[u]): [int(t) for t in units[u] if wide[0] <= t <= wide[1]] for u in range(n)}
+    if got != want or list(g.keys()) != sorted(want):
+        form_mismatch(res, "TsGroup", cont, dict(inp, group_form=gf), got, want)
+        g = nap.TsGroup({int(keys[u]): nap.Ts(G.arr(units[u])) for u in range(n)}, time_support=sup)
+    return g
+
+
+def draw_series_form(frng):
+    return {"t": frng.choice(T_FORMS), "d": frng.choice(D_FORMS), "style": frng.choice(["kw", "kw", "pos", "pandas"]),
+            "hist": frng.choice(["none"] * 5 + ["restrict", "arith", "npfunc", "getslice", "saveload"]), "sup": frng.choice(EP_FORMS)}
+
+
+def build_series(res, nap, cls, ticks, cols, sf, sup_ticks, labels, inp, what):
+    """cls 'tsd' (cols = [values]) or 'frame' (cols = one list of values per column, labels None = default): the series holding these instants and
+    values on the support sup_ticks, built in the form / after the history sf says"""
+    import pandas as pd
+    sup = checked_iset(res, nap, sup_ticks, sf["sup"], inp, what + " time support")
+    hist = sf["hist"]
+    sup0 = iset_obj(nap, [(sup_ticks[0][0] - W, sup_ticks[-1][1] + W)]) if hist == "restrict" else sup
+    rows = list(cols[0]) if cls == "tsd" else [list(r) for r in zip(*cols)]
+    if cls == "frame" and not rows:
+        d, dused = np.zeros((0, len(cols))), "float64"        # an empty Python list has no second dimension: the empty frame keeps its ndarray
+    else:
+        d, dused = d_arg(rows, sf["d"])
+    t, tu, tused = t_arg(nap, ticks, sf["t"])
+    style = sf["style"]
+    if cls == "tsd":
+        if style == "pandas":
+            obj = nap.Tsd(pd.Series(index=G.arr(ticks), data=d, dtype=None if len(ticks) else np.float64), time_support=sup0)
+            tused = "pandas_index"
+        elif style == "pos":
+            obj = nap.Tsd(t, d, tu, sup0)
+        else:
+            obj = nap.Tsd(t=t, d=d, time_units=tu, time_support=sup0)
+    else:
+        if style == "pandas":
+            obj = nap.TsdFrame(pd.DataFrame(index=G.arr(ticks), data=d, columns=labels), time_support=sup0)
+            tused = "pandas_index"
+        elif style == "pos":
+            obj = nap.TsdFrame(t, d, tu, sup0, labels)
+        else:
+            obj = nap.TsdFrame(t=t, d=d, time_units=tu, time_support=sup0, columns=labels)
+    flat = [v for col in cols for v in col]
+    if hist == "restrict":
+        obj = obj.restrict(sup)
+    elif hist == "arith":
+        obj = obj * 1
+    elif hist == "npfunc" and dused != "bool" and all(v != v or v >= 0 for v in flat):
+        obj = np.abs(obj)
+    elif hist == "getslice":
+        obj = obj[0:len(obj)]
+    elif hist == "saveload":
+        obj = _saveload(nap, obj, "ser")
+    elif hist != "none":
+        hist = "none"
+    for k, v in (("t", tused), ("d", dused), ("style", style), ("hist", hist)):
+        res.count("form:%s_%s=%s" % (what, k, v))
+    if cls == "frame":
+        res.count("form:%s_labels=%s" % (what, "default" if labels is None else ",".join(map(str, labels))))
+    want = np.array(cols, dtype=np.float64).T.reshape(len(ticks), len(cols))
+    try:
+        tt = [C.to_ns(x) for x in obj.t]
+        vals = np.asarray(obj.values, dtype=np.float64).reshape(len(tt), len(cols))
+        same = (tt == [int(x) for x in ticks] and vals.shape == want.shape and np.array_equal(vals, want, equal_nan=True)
+                and ep_ticks(obj.time_support) == ([(int(a), int(b)) for a, b in sup_ticks] if len(ticks) else [])      # an empty series has an empty support (known quirk)
+                and (cls == "tsd" or list(obj.columns) == (list(range(len(cols))) if labels is None else list(labels))))
+    except Exception:
+        same = False
+    if not same:
+        form_mismatch(res, what, sf, dict(inp, series_form=sf), None, None)
+        obj = (nap.Tsd(G.arr(ticks), want[:, 0], time_support=iset_obj(nap, sup_ticks)) if cls == "tsd"
+               else nap.TsdFrame(G.arr(ticks), want, time_support=iset_obj(nap, sup_ticks), columns=labels))
+    return obj
+
+
+def minmax_arg(vals, form):
+    if form == "list":
+        return list(vals)
+    if form == "ndarray_int":
+        return np.array(vals)
+    if form == "ndarray_float":
+        return np.array(vals, dtype=np.float64)
+    if form == "ndarray_f32":
+        return np.array(vals, dtype=np.float32)
+    if form == "npscalars":
+        return tuple(np.float32(v) if i % 2 == 0 else np.int64(v) for i, v in enumerate(vals))
+    if form == "floats":
+        return tuple(float(v) for v in vals)
+    return tuple(vals)
+
+
+MINMAX_FORMS = ("tuple", "list", "ndarray_int", "ndarray_float", "ndarray_f32", "npscalars", "floats")
+
+
+def plan_call(crng, names, given, none_default=()):
+    """how the call is written: all keywords (shuffled) / as many positional as possible / a random positional prefix; a parameter whose
+    documented default is None and that the case leaves out may be passed as an explicit None"""
+    style = crng.choice(["kw", "pos", "mixed", "mixed"])
+    explicit_none = [p for p in none_default if p not in given and crng.random() < 0.3]
+    vals = dict(given)
+    vals.update({p: None for p in explicit_none})
+    lead = []
+    for p in names:
+        if p not in vals:
+            break
+        lead.append(p)
+    npos = {"kw": 0, "pos": len(lead), "mixed": crng.randint(0, len(lead))}[style]
+    rest = [p for p in names if p in vals and p not in lead[:npos]]
+    crng.shuffle(rest)
+    return [vals[p] for p in lead[:npos]], {p: vals[p] for p in rest}, {"style": style, "positional": npos, "keywords": rest, "explicit_none": explicit_none}
+
+
+def invoke(res, op, f, names, given, none_default, crng, inp, refusable=False, flags=None):
+    """call f in the planned form.  Returns the result, or None when nothing can be judged (a violation has been recorded, or the call used a
+    form the documented signature does not accept - `refusable` - and was refused with a clean TypeError / ValueError).
+    An explicit None for a parameter whose documented default is None must behave like leaving it out: a raise is reported on its own key
+    and the call is repeated without it, so that the rest of the case is still judged."""
+    args, kwargs, info = plan_call(crng, names, given, none_default)
+    res.count("form:call=%s" % info["style"])
+    for p in info["explicit_none"]:
+        res.count("form:explicit_None=%s" % p)
+    inp["call"] = info
+    try:
+        return f(*args, **kwargs)
+    except Exception as ex:
+        err = ex
+    if info["explicit_none"]:
+        # blame the explicit None only when the same call WITHOUT it answers
+        try:
+            out = f(**given)
+        except Exception as ex:
+            err, out = ex, None
+        else:
+            key = {"op": op, "part": "explicit_none", "exception": type(err).__name__}
+            key.update({p + "_none": p in info["explicit_none"] for p in none_default})
+            res.violations.append({"key": key, "what": "%s raises %s (%s) when %s is passed as an explicit None, the documented default: it must behave as when the argument is left out"
+                                   % (op, type(err).__name__, str(err)[:60], " and ".join(info["explicit_none"])), "input": dict(inp), "impl": type(err).__name__, "expected": "same as without the argument"})
+            return out
+    if refusable and isinstance(err, (TypeError, ValueError)):
+        res.count("form:clean_refusal_of_undocumented_form")
+        return None
+    res.violations.append({"key": dict({"op": op, "part": "exception", "exception": type(err).__name__}, **(flags or {})), "what": "%s raised %s: %s" % (op, type(err).__name__, str(err)[:100]),
+                           "input": dict(inp), "impl": type(err).__name__})
+    return None
+
+
+def same_output(a, b):
+    """two results of the same call on the same live objects (nested tuples / dicts / frames / arrays) are identical"""
+    if isinstance(a, (tuple, list)):
+        return isinstance(b, (tuple, list)) and len(a) == len(b) and all(same_output(x, y) for x, y in zip(a, b))
+    if isinstance(a, dict):
+        return isinstance(b, dict) and list(a.keys()) == list(b.keys()) and all(same_output(a[k], b[k]) for k in a)
+    if hasattr(a, "values") and hasattr(a, "index"):
+        return (hasattr(b, "values") and list(a.index) == list(b.index) and list(getattr(a, "columns", [])) == list(getattr(b, "columns", []))
+                and np.array_equal(np.asarray(a.values, dtype=float), np.asarray(b.values, dtype=float), equal_nan=True))
+    return np.array_equal(np.asarray(a, dtype=float), np.asarray(b, dtype=float), equal_nan=True)
+
+
+def second_call(res, op, f, given, first, inp):
+    """the same live objects used twice: the second answer must be the first"""
+    res.count("form:same_objects_used_twice")
+    try:
+        again = f(**given)
+        ok = same_output(first, again)
+    except Exception as ex:
+        ok, again = False, type(ex).__name__
+    if not ok:
+        res.violations.append({"key": {"op": op, "part": "second_call_differs"}, "what": "calling %s a second time with the same live objects gives another answer" % op, "input": dict(inp)})
+
+
 # ----------------------------------------------------------------------------------------------------------------
 def part_hist(res, tier):
     """oracle laws: np.histogram / np.histogram2d / np.digitize against the executable hist / bin_of / dig / hist2d
@@ -256,26 +689,78 @@ def part_discrete(res, tier, rng, nap):
             eps[name] = rand_iset(rng, grid, 3)
         units = rand_units(rng, grid, [iv for v in eps.values() for iv in v])
         cases.append((eps, units))
+    run_discrete_cases(res, cases, nap)
+
+
+def part_discrete_forms(res, tier, frng, nap):
+    """argument forms of compute_discrete_tuning_curves: epoch-set keys (strings incl. multi-digit, unsorted ints, floats), every IntervalSet form,
+    every group form, 0 / 1 / 3 units, an empty dictionary, positional / keyword call, time frames"""
+    grid = [i * U for i in range(12)]
+    n_cases = 200 if tier == "quick" else 1500
+    cases = []
+    namesets = (["b", "a", "c"], ["10", "9", "100"], [3, 1, 2], [10, 9, 100], [2.5, 0.5, 1.0], ["B", "a", "C"])
+    for _ in range(n_cases):
+        names = frng.choice(namesets)
+        eps = {}
+        for name in frng.sample(names, frng.randint(1, 3)):
+            eps[name] = rand_iset(frng, grid, frng.choice([3, 3, 5]))
+        if frng.random() < 0.03:
+            eps = {}
+        units = rand_units(frng, grid, [iv for v in eps.values() for iv in v])
+        r = frng.random()
+        units = [] if r < 0.05 else units[:1] if r < 0.15 else units
+        mul, off = draw_frame(frng)
+        keys = list(frng.choice(KEYSETS))[:len(units)]
+        fm = {"frame": frame_name(mul, off), "ep_forms": {str(k): frng.choice(EP_FORMS) for k in eps}, "group": draw_group_form(frng), "call_seed": frng.randrange(2**30),
+              "twice": frng.random() < 0.15}
+        cases.append(({k: shift(v, mul, off) for k, v in eps.items()}, shift(units, mul, off), keys, fm, (shift(-U, mul, off), shift(12 * U, mul, off))))
+    run_discrete_cases(res, cases, nap)
+
+
+def run_discrete_cases(res, cases, nap):
     lines = []
-    for eps, units in cases:
+    for case in cases:
+        eps, units = case[0], case[1]
         for name in eps:
             for sp in units:
                 lines.append("discrete\t%s\t%s" % (C.fmt_ints(sp), C.fmt_iset(eps[name])))
-    out = C.run_model(lines, driver="driver_c17")
+    out = C.run_model(lines, driver="driver_c17") if lines else []
     pos = 0
     wide = nap.IntervalSet(-1.0, 1.0)
-    for eps, units in cases:
-        keys = [7, 2, 5]
-        g = nap.TsGroup({k: nap.Ts(G.arr(sp)) for k, sp in zip(keys, units)}, time_support=wide)
-        d = {name: iset_obj(nap, ep) for name, ep in eps.items()}
-        tc = nap.compute_discrete_tuning_curves(g, d)
-        inp = {"dict_ep": eps, "units": dict(zip(keys, units))}
-        res.case(("discrete", tuple(sorted((k, tuple(v)) for k, v in eps.items())), tuple(map(tuple, units))),
+    for n, case in enumerate(cases):
+        eps, units = case[0], case[1]
+        if len(case) == 2:
+            keys = [7, 2, 5]
+            g = nap.TsGroup({k: nap.Ts(G.arr(sp)) for k, sp in zip(keys, units)}, time_support=wide)
+            d = {name: iset_obj(nap, ep) for name, ep in eps.items()}
+            tc = nap.compute_discrete_tuning_curves(g, d)
+            inp = {"dict_ep": eps, "units": dict(zip(keys, units))}
+            res.count("part=discrete")
+        else:
+            keys, fm, wd = case[2], case[3], case[4]
+            inp = {"dict_ep": {str(k): v for k, v in eps.items()}, "units": dict(zip(keys, units)), "form": fm}
+            g = build_group(res, nap, units, keys, fm["group"], wd, inp)
+            d = {name: checked_iset(res, nap, ep, fm["ep_forms"][str(name)], inp) for name, ep in eps.items()}
+            res.count("part=discrete_forms")
+            res.count("form:frame=" + fm["frame"])
+            res.count("form:discrete_epoch_keys=%s" % ("none" if not eps else type(next(iter(eps))).__name__))
+            res.count("form:n_units=%d" % len(units))
+            given = {"group": g, "dict_ep": d}
+            tc = invoke(res, "compute_discrete_tuning_curves", nap.compute_discrete_tuning_curves, ["group", "dict_ep"], given, (), random.Random(fm["call_seed"]), inp)
+            if tc is None:
+                pos += len(eps) * len(units)
+                res.case(("discrete_forms", n), nontrivial=True)
+                continue
+            if fm["twice"]:
+                second_call(res, "compute_discrete_tuning_curves", nap.compute_discrete_tuning_curves, given, tc, inp)
+        res.case(("discrete", tuple(sorted((str(k), tuple(v)) for k, v in eps.items())), tuple(map(tuple, units))),
                  nontrivial=any(0 < len(restrict_ts(sp, ep)) < len(sp) for sp in units for ep in eps.values()))
-        res.count("part=discrete")
         if list(tc.index) != sorted(eps) or list(tc.columns) != sorted(keys):
             res.violations.append({"key": {"op": "compute_discrete_tuning_curves", "part": "labels"}, "what": "rows are not the sorted epoch keys / columns not the unit keys",
                                    "input": inp, "impl": [list(tc.index), list(tc.columns)]})
+            if len(case) > 2:
+                pos += len(eps) * len(units)
+                continue
         for name in eps:
             tot = sum(e - s for s, e in eps[name])
             for k, sp in zip(keys, units):
@@ -285,7 +770,7 @@ def part_discrete(res, tier, rng, nap):
                 if int(m[0]) != want or Fr(m[1]) != Fr(want * 10**9, tot):
                     res.disagreements.append({"op": "discrete model vs statement", "input": inp, "model": m, "expected": [want, str(Fr(want * 10**9, tot))]})
                 got = float(tc.loc[name, k]) * tot / 1e9
-                if abs(got - want) > 1e-6:
+                if not abs(got - want) <= 1e-6:
                     res.violations.append({"key": {"op": "compute_discrete_tuning_curves"}, "what": "rate x total duration of the epoch set is not the number of spikes inside it",
                                            "input": dict(inp, epoch=name, unit=k), "impl": float(tc.loc[name, k]), "expected": want / (tot / 1e9)})
 
@@ -314,6 +799,118 @@ def tc_cases(res, tier, rng, n_cases, two_d):
 
 def inside_vals(c, col):
     return [v for t, v in zip(c["ft"], c[col]) if G.mem(t, c["epe"])]
+
+
+def mfx(vals, hi):
+    """feature values as the integer model sees them: a NaN / infinite value falls in no bin, like any value beyond the range"""
+    return [v if v == v and abs(v) != INF else hi + 7 for v in vals]
+
+
+def tc_form_cases(frng, n_cases, kind):
+    """kind '1d' | '2d' | 'cont': base cases as tc_cases, then degenerate receivers / arguments (one feature sample, empty ep, NaN / +inf / -inf feature
+    values, all-equal / all-zero feature, up to 5 intervals, 0 / 1 / 3 units), a time frame and an argument form per case"""
+    grid = [i * U for i in range(12)]
+    out = []
+    for c in tc_cases(None, None, frng, n_cases, kind != "1d"):
+        deg, need_explicit = "none", False
+        r = frng.random()
+        k = len(c["ft"])
+        if r < 0.07:
+            i = frng.randrange(k)
+            c["ft"], c["fx"], c["fy"] = [c["ft"][i]], [c["fx"][i]], [c["fy"][i]]
+            deg, need_explicit = "one_feature_sample", True
+        elif r < 0.12:
+            c["ep"], c["epe"] = [], []
+            deg, need_explicit = "empty_ep", True
+        elif r < 0.24:
+            for i in frng.sample(range(k), frng.choice([1, 1, 2])):
+                col = frng.choice(["fx", "fx", "fy"]) if kind != "1d" else "fx"
+                c[col][i] = frng.choice([float("nan"), INF, -INF])
+            deg, need_explicit = "nan_inf_feature_value", True
+        elif r < 0.29:
+            c["fx"], c["fy"] = [c["fx"][0]] * k, [c["fy"][0]] * k
+            deg, need_explicit = "all_equal_feature", True
+        elif r < 0.32:
+            c["fx"], c["fy"] = [0] * k, [0] * k
+            deg, need_explicit = "all_zero_feature", True
+        elif r < 0.40:
+            c["ep"] = rand_iset(frng, grid, 5)
+            c["epe"] = c["ep"]
+            deg = "up_to_5_intervals"
+        c["deg"] = deg
+        if kind != "cont":
+            r = frng.random()
+            c["units"] = [] if r < 0.06 else c["units"][:1] if r < 0.16 else c["units"]
+            c["keys"] = list(frng.choice(KEYSETS))[:len(c["units"])]
+        if kind == "1d":
+            b = pick_explicit(frng) if need_explicit else pick_bins(frng, c["fx"])
+            if b is None:
+                continue
+            c["lo"], c["hi"], c["nb"], c["explicit"] = b
+        else:
+            two = True if kind == "2d" else frng.random() < 0.4
+            bx = pick_explicit(frng) if need_explicit else pick_bins(frng, inside_vals(c, "fx"))
+            by = (0, 1, 1, True) if not two else pick_explicit(frng) if need_explicit else pick_bins(frng, inside_vals(c, "fy"))
+            if bx is None or by is None or (two and bx[3] != by[3]):
+                continue
+            c["bx"], c["by"], c["two"] = bx, by, two
+        mul, off = draw_frame(frng)
+        fm = {"frame": frame_name(mul, off), "feature": draw_series_form(frng), "ep_form": frng.choice(EP_FORMS), "minmax_form": frng.choice(MINMAX_FORMS),
+              "nb_form": frng.choice(["int"] * 6 + ["np.int64"]), "call_seed": frng.randrange(2**30), "twice": frng.random() < 0.15}
+        if kind == "1d" or (kind == "cont" and not c["two"]):
+            fm["feat_cls"] = frng.choice(["tsd", "tsd", "frame", "frame_named"])
+        else:
+            fm["feat_labels"] = frng.choice([None, None, ["x", "y"], ["y", "x"], [1, 0], [5, 2]])
+            fm["nb_tuple"] = frng.random() < 0.5
+        if kind == "cont":
+            cont_signal(frng, c, fm, grid)
+        else:
+            fm["group"] = draw_group_form(frng)
+        for f in ("ft", "fsup", "ep", "epe", "units", "st"):
+            if f in c:
+                c[f] = shift(c[f], mul, off)
+        c["wide"] = (shift(-U, mul, off), shift(12 * U, mul, off))
+        c["form"] = fm
+        out.append(c)
+    return out
+
+
+def build_tc_inputs(res, nap, c, fm, keys, inp, cols, what):
+    """feature(s), group and the arguments common to the four tuning-curve functions, in the forms fm says"""
+    res.count("form:frame=" + fm["frame"])
+    res.count("form:degenerate=" + c["deg"])
+    if len(cols) == 1:
+        cls = "tsd" if fm["feat_cls"] == "tsd" else "frame"
+        labels = ["hd"] if fm["feat_cls"] == "frame_named" else None
+        res.count("form:feature_class=" + fm["feat_cls"])
+    else:
+        cls, labels = "frame", fm["feat_labels"]
+    feat = build_series(res, nap, cls, c["ft"], cols, fm["feature"], c["fsup"], labels, inp, what)
+    given = {"feature" if len(cols) == 1 else "features": feat}
+    g = None
+    if "group" in fm:
+        g = build_group(res, nap, c["units"], keys, fm["group"], c["wide"], inp)
+        res.count("form:n_units=%d" % len(keys))
+        given["group"] = g
+    if len(cols) == 1:
+        nb = c["nb"] if "nb" in c else c["bx"][2]
+        given["nb_bins"] = nb if fm["nb_form"] == "int" else np.int64(nb)
+    else:
+        nx, ny = c["bx"][2], c["by"][2]
+        given["nb_bins"] = (nx if fm["nb_form"] == "int" else np.int64(nx)) if nx == ny and not fm["nb_tuple"] else (nx, ny) if fm["nb_form"] == "int" else (np.int64(nx), np.int64(ny))
+    res.count("form:nb_bins=%s" % (fm["nb_form"] if not isinstance(given["nb_bins"], tuple) else "tuple_of_" + fm["nb_form"]))
+    if c["ep"] is not None:
+        given["ep"] = checked_iset(res, nap, c["ep"], fm["ep_form"], inp, "ep")
+        res.count("form:ep=%s" % ("empty" if not c["ep"] else "%d_intervals" % len(c["ep"])))
+    else:
+        res.count("form:ep=None")
+    res.count("form:minmax=" + fm["minmax_form"])
+    return feat, g, given
+
+
+def part_tc1d_forms(res, tier, frng, nap):
+    cases = tc_form_cases(frng, 400 if tier == "quick" else 3200, "1d")
+    run_tc1d_cases(res, cases, frng, nap, "tc1d_forms")
 
 
 def part_tc1d(res, tier, rng, nap):
@@ -354,25 +951,40 @@ def run_tc1d_cases(res, cases, rng, nap, tag):
     lines = []
     for c in cases:
         for sp in c["units"]:
-            lines.append("tc1d\t%d %d %d\t%s\t%s\t%s\t%s" % (c["lo"], c["hi"], c["nb"], C.fmt_ints(sp), C.fmt_ints(c["ft"]), C.fmt_ints(c["fx"]), C.fmt_iset(c["epe"])))
-    out = C.run_model(lines, driver="driver_c17")
+            lines.append("tc1d\t%d %d %d\t%s\t%s\t%s\t%s" % (c["lo"], c["hi"], c["nb"], C.fmt_ints(sp), C.fmt_ints(c["ft"]), C.fmt_ints(mfx(c["fx"], c["hi"])), C.fmt_iset(c["epe"])))
+    out = C.run_model(lines, driver="driver_c17") if lines else []
     pos = 0
     wide = nap.IntervalSet(-1.0, 1.0)
-    keys = [7, 2, 5]
     for n, c in enumerate(cases):
         lo, hi, nb, ep = c["lo"], c["hi"], c["nb"], c["epe"]
-        feat = nap.Tsd(G.arr(c["ft"]), np.array(c["fx"], dtype=float), time_support=iset_obj(nap, c["fsup"]))
-        if rng.random() < 0.3:
-            feat = nap.TsdFrame(G.arr(c["ft"]), np.array(c["fx"], dtype=float)[:, None], time_support=iset_obj(nap, c["fsup"]))
-        g = nap.TsGroup({k: nap.Ts(G.arr(sp)) for k, sp in zip(keys, c["units"])}, time_support=wide)
-        kw = {}
-        if c["ep"] is not None:
-            kw["ep"] = iset_obj(nap, c["ep"])
-        if c["explicit"]:
-            kw["minmax"] = (lo, hi)
+        fm = c.get("form")
+        keys = c.get("keys", [7, 2, 5])
         inp = {k: c[k] for k in ("ft", "fx", "fsup", "ep", "units")}
         inp.update(nb_bins=nb, minmax=(lo, hi) if c["explicit"] else None)
-        tc = nap.compute_1d_tuning_curves(g, feat, nb, **kw)
+        if fm is None:
+            feat = nap.Tsd(G.arr(c["ft"]), np.array(c["fx"], dtype=float), time_support=iset_obj(nap, c["fsup"]))
+            if rng.random() < 0.3:
+                feat = nap.TsdFrame(G.arr(c["ft"]), np.array(c["fx"], dtype=float)[:, None], time_support=iset_obj(nap, c["fsup"]))
+            g = nap.TsGroup({k: nap.Ts(G.arr(sp)) for k, sp in zip(keys, c["units"])}, time_support=wide)
+            kw = {}
+            if c["ep"] is not None:
+                kw["ep"] = iset_obj(nap, c["ep"])
+            if c["explicit"]:
+                kw["minmax"] = (lo, hi)
+            tc = nap.compute_1d_tuning_curves(g, feat, nb, **kw)
+        else:
+            inp.update(form=fm, keys=keys, degenerate=c["deg"])
+            feat, g, given = build_tc_inputs(res, nap, c, fm, keys, inp, [c["fx"]], "feature")
+            if c["explicit"]:
+                given["minmax"] = minmax_arg((lo, hi), fm["minmax_form"])
+            tc = invoke(res, "compute_1d_tuning_curves", nap.compute_1d_tuning_curves, ["group", "feature", "nb_bins", "ep", "minmax"], given, ("ep", "minmax"),
+                        random.Random(fm["call_seed"]), inp, refusable=fm["nb_form"] != "int")
+            if tc is None:
+                pos += len(keys)
+                res.case((tag, n), nontrivial=True)
+                continue
+            if fm["twice"]:
+                second_call(res, "compute_1d_tuning_curves", nap.compute_1d_tuning_curves, given, tc, inp)
         res.count("part=" + tag)
         res.count("tc1d_" + ("explicit" if c["explicit"] else "inferred") + "_minmax")
         res.count("tc1d_ep=" + ("None" if c["ep"] is None else "%d_intervals" % len(c["ep"])))
@@ -449,29 +1061,55 @@ def part_tc2d(res, tier, rng, nap):
             continue
         c["bx"], c["by"] = bx, by
         cases.append(c)
+    run_tc2d_cases(res, cases, rng, nap, "tc2d")
+
+
+def part_tc2d_forms(res, tier, frng, nap):
+    cases = tc_form_cases(frng, 260 if tier == "quick" else 2000, "2d")
+    run_tc2d_cases(res, cases, frng, nap, "tc2d_forms")
+
+
+def run_tc2d_cases(res, cases, rng, nap, tag):
     lines = []
     for c in cases:
         for sp in c["units"]:
-            lines.append("tc2d\t%d %d %d\t%d %d %d\t%s\t%s\t%s\t%s\t%s" % (c["bx"][:3] + c["by"][:3] + (C.fmt_ints(sp), C.fmt_ints(c["ft"]), C.fmt_ints(c["fx"]), C.fmt_ints(c["fy"]), C.fmt_iset(c["epe"]))))
-    out = C.run_model(lines, driver="driver_c17")
+            lines.append("tc2d\t%d %d %d\t%d %d %d\t%s\t%s\t%s\t%s\t%s" % (c["bx"][:3] + c["by"][:3] + (C.fmt_ints(sp), C.fmt_ints(c["ft"]), C.fmt_ints(mfx(c["fx"], c["bx"][1])),
+                                                                                  C.fmt_ints(mfx(c["fy"], c["by"][1])), C.fmt_iset(c["epe"]))))
+    out = C.run_model(lines, driver="driver_c17") if lines else []
     pos = 0
     wide = nap.IntervalSet(-1.0, 1.0)
-    keys = [7, 2, 5]
     for n, c in enumerate(cases):
         (lx, hx, nx, explicit), (ly, hy, ny, _) = c["bx"], c["by"]
         ep = c["epe"]
-        feat = nap.TsdFrame(G.arr(c["ft"]), np.array([c["fx"], c["fy"]], dtype=float).T, time_support=iset_obj(nap, c["fsup"]))
-        g = nap.TsGroup({k: nap.Ts(G.arr(sp)) for k, sp in zip(keys, c["units"])}, time_support=wide)
-        kw = {}
-        if c["ep"] is not None:
-            kw["ep"] = iset_obj(nap, c["ep"])
-        if explicit:
-            kw["minmax"] = (lx, hx, ly, hy)
-        nbarg = nx if nx == ny and rng.random() < 0.5 else (nx, ny)
+        fm = c.get("form")
+        keys = c.get("keys", [7, 2, 5])
         inp = {k: c[k] for k in ("ft", "fx", "fy", "fsup", "ep", "units")}
         inp.update(nb_bins=[nx, ny], minmax=(lx, hx, ly, hy) if explicit else None)
-        tc, xy = nap.compute_2d_tuning_curves(g, feat, nbarg, **kw)
-        res.count("part=tc2d")
+        if fm is None:
+            feat = nap.TsdFrame(G.arr(c["ft"]), np.array([c["fx"], c["fy"]], dtype=float).T, time_support=iset_obj(nap, c["fsup"]))
+            g = nap.TsGroup({k: nap.Ts(G.arr(sp)) for k, sp in zip(keys, c["units"])}, time_support=wide)
+            kw = {}
+            if c["ep"] is not None:
+                kw["ep"] = iset_obj(nap, c["ep"])
+            if explicit:
+                kw["minmax"] = (lx, hx, ly, hy)
+            nbarg = nx if nx == ny and rng.random() < 0.5 else (nx, ny)
+            tc, xy = nap.compute_2d_tuning_curves(g, feat, nbarg, **kw)
+        else:
+            inp.update(form=fm, keys=keys, degenerate=c["deg"])
+            feat, g, given = build_tc_inputs(res, nap, c, fm, keys, inp, [c["fx"], c["fy"]], "features")
+            if explicit:
+                given["minmax"] = minmax_arg((lx, hx, ly, hy), fm["minmax_form"])
+            r = invoke(res, "compute_2d_tuning_curves", nap.compute_2d_tuning_curves, ["group", "features", "nb_bins", "ep", "minmax"], given, ("ep", "minmax"),
+                       random.Random(fm["call_seed"]), inp, refusable=fm["nb_form"] != "int")
+            if r is None:
+                pos += len(keys)
+                res.case((tag, n), nontrivial=True)
+                continue
+            if fm["twice"]:
+                second_call(res, "compute_2d_tuning_curves", nap.compute_2d_tuning_curves, given, r, inp)
+            tc, xy = r
+        res.count("part=" + tag)
         if not explicit and ((min(c["fx"]), max(c["fx"])) != (lx, hx) or (min(c["fy"]), max(c["fy"])) != (ly, hy)):
             res.count("tc2d_inferred_minmax_of_feature_in_ep_narrower_than_whole_feature")
         rows = list(zip(c["fx"], c["fy"]))
@@ -499,7 +1137,7 @@ def part_tc2d(res, tier, rng, nap):
             mo = [[int(v) for v in r.split()] for r in m[1].split(";")]
             spin = restrict_ts(sp, ep)
             chs = [choices(x, c["ft"], rows, ep) for x in spin]
-            res.case(("tc2d", n, k), nontrivial=0 < len(spin) and any(any(r) for r in occ))
+            res.case((tag, n, k), nontrivial=0 < len(spin) and any(any(r) for r in occ))
             a = np.asarray(tc[k], dtype=float)
             ach = achievable(chs, key2)
 
@@ -566,8 +1204,10 @@ def cont_expect(pick, vals, key, occ_flat, is_last, defects=()):
             out.append(("nan",))
         elif not vs:
             out.append(("zero",) if "empty_visited_bin_is_zero" in defects else ("nan",))
-        elif any(v != v for v in vs):
-            out.append(("zero",) if "nan_mean_is_zero" in defects else ("nan",))
+        elif any(v != v for v in vs) or (INF in vs and -INF in vs):
+            out.append(("zero",) if "nan_mean_is_zero" in defects else ("nan",))        # inf + (-inf): the mean is NaN like a NaN sample's
+        elif INF in vs or -INF in vs:
+            out.append(("inf", 1 if INF in vs else -1))                                 # the mean of samples holding an infinity of one sign is that infinity
         else:
             out.append(("mean", len(vs), sum(vs)))
     return out
@@ -580,6 +1220,9 @@ def cont_match(col, exp):
                 return False
         elif e[0] == "zero":
             if x != 0.0:
+                return False
+        elif e[0] == "inf":
+            if x != e[1] * INF:
                 return False
         elif np.isnan(x) or abs(x * e[1] - e[2]) > 1e-6:
             return False
@@ -623,52 +1266,141 @@ def part_cont(res, tier, rng, nap):
         nan_at = sorted(rng.sample(range(len(st)), rng.choice([1, 1, 2]))) if rng.random() < 0.2 else []
         c.update(bx=bx, by=by, two=two, st=st, sv=sv, nan_at=nan_at)
         cases.append(c)
-    # the extracted model works on integers: it is run on the cases without NaN signal value
+    run_cont_cases(res, cases, rng, nap, "cont")
+
+
+def cont_signal(frng, c, fm, grid):
+    """signal of a continuous-variant form case: 0 / 1 / many samples, values that the drawn dtype holds exactly, NaN and +inf / -inf samples (float dtypes),
+    class Tsd / one-column / two-column TsdFrame with default, string, unsorted-integer labels; or the feature object itself (shared memory)"""
+    sf = draw_series_form(frng)
+    d = sf["d"]
+    r = frng.random()
+    if r < 0.04:
+        st = []
+    elif r < 0.10:
+        st = [frng.choice(grid)]
+    else:
+        st = sorted(frng.sample(grid, frng.randint(1, 8)) + ([frng.choice(grid)] if frng.random() < 0.2 else []))
+    if d == "bool":
+        sv, q = [frng.randint(0, 1) for _ in st], (-1, 1)
+    elif d == "float32":
+        sv, q = [frng.randint(-1, 1) for _ in st], (-1, 0)           # |sum| <= 9: the float32 mean is within the oracle's 1e-6 of the exact one
+    elif d.startswith("uint"):
+        sv, q = [frng.randint(0, 9) for _ in st], (3, 1)
+    else:
+        sv, q = [frng.randint(-3, 9) for _ in st], (3, 1)
+    nan_at, inf_at = [], {}
+    if d in ("float64", "float32") and st:
+        if frng.random() < 0.2:
+            nan_at = sorted(frng.sample(range(len(st)), min(len(st), frng.choice([1, 1, 2]))))
+        if frng.random() < 0.25:
+            inf_at = {i: frng.choice([1, -1]) for i in frng.sample(range(len(st)), min(len(st), frng.choice([1, 1, 2])))}
+    cls = frng.choice(["tsd", "frame", "frame", "frame1"])
+    labels = {"tsd": None, "frame1": frng.choice([None, ["p"], [4]]), "frame": frng.choice([["p", "q"], ["q", "p"], [5, 2], [1, 0], None])}[cls]
+    shared = (not c["two"]) and c["deg"] != "nan_inf_feature_value" and frng.random() < 0.06
+    if shared:
+        st, sv, nan_at, inf_at, cls, labels = list(c["ft"]), list(c["fx"]), [], {}, "shared", None
+    c.update(st=st, sv=sv, nan_at=nan_at, inf_at=inf_at, q=q)
+    fm.update(signal=sf, sig_cls=cls, sig_labels=labels)
+
+
+def part_cont_forms(res, tier, frng, nap):
+    cases = tc_form_cases(frng, 480 if tier == "quick" else 4000, "cont")
+    run_cont_cases(res, cases, frng, nap, "cont_forms")
+
+
+def run_cont_cases(res, cases, rng, nap, tag):
+    # the extracted model works on integers: it is run on the cases without NaN / infinite signal value
     lines, mpos = [], {}
     for n, c in enumerate(cases):
-        if c["nan_at"]:
+        if c["nan_at"] or c.get("inf_at"):
             continue
         mpos[n] = len(lines)
+        fx, fy = mfx(c["fx"], c["bx"][1]), mfx(c["fy"], c["by"][1])
         if c["two"]:
-            lines.append("cont2d\t%d %d %d\t%d %d %d\t%s\t%s\t%s\t%s\t%s\t%s" % (c["bx"][:3] + c["by"][:3] + (C.fmt_ints(c["st"]), C.fmt_ints(c["sv"]), C.fmt_ints(c["ft"]), C.fmt_ints(c["fx"]), C.fmt_ints(c["fy"]), C.fmt_iset(c["epe"]))))
+            lines.append("cont2d\t%d %d %d\t%d %d %d\t%s\t%s\t%s\t%s\t%s\t%s" % (c["bx"][:3] + c["by"][:3] + (C.fmt_ints(c["st"]), C.fmt_ints(c["sv"]), C.fmt_ints(c["ft"]), C.fmt_ints(fx), C.fmt_ints(fy), C.fmt_iset(c["epe"]))))
         else:
-            lines.append("cont1d\t%d %d %d\t%s\t%s\t%s\t%s\t%s" % (c["bx"][:3] + (C.fmt_ints(c["st"]), C.fmt_ints(c["sv"]), C.fmt_ints(c["ft"]), C.fmt_ints(c["fx"]), C.fmt_iset(c["epe"]))))
-    out = C.run_model(lines, driver="driver_c17")
+            lines.append("cont1d\t%d %d %d\t%s\t%s\t%s\t%s\t%s" % (c["bx"][:3] + (C.fmt_ints(c["st"]), C.fmt_ints(c["sv"]), C.fmt_ints(c["ft"]), C.fmt_ints(fx), C.fmt_iset(c["epe"]))))
+    out = C.run_model(lines, driver="driver_c17") if lines else []
     wide = iset_obj(nap, [(-U, 12 * U)])
     nan = float("nan")
     for n, c in enumerate(cases):
         (lx, hx, nx, explicit), (ly, hy, ny, _) = c["bx"], c["by"]
         ep, two = c["epe"], c["two"]
+        fm = c.get("form")
         op = "compute_2d_tuning_curves_continuous" if two else "compute_1d_tuning_curves_continuous"
-        svp = [nan if i in c["nan_at"] else float(v) for i, v in enumerate(c["sv"])]
-        svq = [3 * v + 1 for v in svp]
-        sig = nap.TsdFrame(G.arr(c["st"]), np.array([svp, svq], dtype=float).T, time_support=wide, columns=["p", "q"])
-        single = (not two) and rng.random() < 0.3
-        if single:
-            sig = nap.Tsd(G.arr(c["st"]), np.array(svp, dtype=float), time_support=wide)
-        kw = {}
-        if c["ep"] is not None:
-            kw["ep"] = iset_obj(nap, c["ep"])
+        qa, qb = c.get("q", (3, 1))
+        inf_at = c.get("inf_at", {})
+        svp = [nan if i in c["nan_at"] else inf_at[i] * INF if i in inf_at else float(v) for i, v in enumerate(c["sv"])]
+        svq = [qa * v + qb for v in svp]
         inp = {k: c[k] for k in ("st", "sv", "nan_at", "ft", "fx", "fsup", "ep")}
         if two:
-            feat = nap.TsdFrame(G.arr(c["ft"]), np.array([c["fx"], c["fy"]], dtype=float).T, time_support=iset_obj(nap, c["fsup"]))
-            if explicit:
-                kw["minmax"] = (lx, hx, ly, hy)
             inp.update(fy=c["fy"], nb_bins=[nx, ny], minmax=(lx, hx, ly, hy) if explicit else None)
-            tc, xy = nap.compute_2d_tuning_curves_continuous(sig, feat, (nx, ny), **kw)
-            cols = {"p": np.asarray(tc["p"], float).reshape(-1), "q": np.asarray(tc["q"], float).reshape(-1)}
-            labels_ok = [list(xy[0]), list(xy[1])] == [centres_of(lx, hx, nx), centres_of(ly, hy, ny)]
             rows = list(zip(c["fx"], c["fy"]))
         else:
-            feat = nap.Tsd(G.arr(c["ft"]), np.array(c["fx"], dtype=float), time_support=iset_obj(nap, c["fsup"]))
-            if explicit:
-                kw["minmax"] = (lx, hx)
             inp.update(nb_bins=nx, minmax=(lx, hx) if explicit else None)
-            tc = nap.compute_1d_tuning_curves_continuous(sig, feat, nx, **kw)
-            cols = {"p": tc.values[:, 0].astype(float)} if single else {"p": tc["p"].values.astype(float), "q": tc["q"].values.astype(float)}
-            labels_ok = list(tc.index) == centres_of(lx, hx, nx)
             rows = [(v, 0) for v in c["fx"]]
-        res.count("part=" + ("cont2d" if two else "cont1d"))
+        if fm is None:
+            sig = nap.TsdFrame(G.arr(c["st"]), np.array([svp, svq], dtype=float).T, time_support=wide, columns=["p", "q"])
+            single = (not two) and rng.random() < 0.3
+            if single:
+                sig = nap.Tsd(G.arr(c["st"]), np.array(svp, dtype=float), time_support=wide)
+            outlabels = [0] if single else ["p", "q"]
+            kw = {}
+            if c["ep"] is not None:
+                kw["ep"] = iset_obj(nap, c["ep"])
+            if two:
+                feat = nap.TsdFrame(G.arr(c["ft"]), np.array([c["fx"], c["fy"]], dtype=float).T, time_support=iset_obj(nap, c["fsup"]))
+                if explicit:
+                    kw["minmax"] = (lx, hx, ly, hy)
+                r = nap.compute_2d_tuning_curves_continuous(sig, feat, (nx, ny), **kw)
+            else:
+                feat = nap.Tsd(G.arr(c["ft"]), np.array(c["fx"], dtype=float), time_support=iset_obj(nap, c["fsup"]))
+                if explicit:
+                    kw["minmax"] = (lx, hx)
+                r = nap.compute_1d_tuning_curves_continuous(sig, feat, nx, **kw)
+        else:
+            inp.update(form=fm, degenerate=c["deg"], inf_at=inf_at, q=[qa, qb])
+            feat, _, given = build_tc_inputs(res, nap, c, fm, [], inp, [c["fx"], c["fy"]] if two else [c["fx"]], "features" if two else "feature")
+            cls, labels = fm["sig_cls"], fm["sig_labels"]
+            res.count("form:signal_class=" + cls)
+            if cls == "shared":
+                sig, outlabels = feat, ([0] if fm["feat_cls"] != "frame_named" else ["hd"])
+            elif cls == "frame":
+                sig = build_series(res, nap, "frame", c["st"], [svp, svq], fm["signal"], [c["wide"]], labels, inp, "signal")
+                outlabels = labels if labels is not None else [0, 1]
+            else:
+                sig = build_series(res, nap, "tsd" if cls == "tsd" else "frame", c["st"], [svp], fm["signal"], [c["wide"]], labels, inp, "signal")
+                outlabels = labels if labels is not None else [0]
+            single = len(outlabels) == 1
+            if c["nan_at"]:
+                res.count("form:signal_holds_NaN")
+            if inf_at:
+                res.count("form:signal_holds_inf" + ("_of_both_signs" if len(set(inf_at.values())) == 2 else ""))
+            res.count("form:signal_samples=%s" % (len(c["st"]) if len(c["st"]) < 2 else "many"))
+            given["tsdframe"] = sig
+            if explicit:
+                given["minmax"] = minmax_arg((lx, hx, ly, hy) if two else (lx, hx), fm["minmax_form"])
+            f = nap.compute_2d_tuning_curves_continuous if two else nap.compute_1d_tuning_curves_continuous
+            r = invoke(res, op, f, ["tsdframe", "features" if two else "feature", "nb_bins", "ep", "minmax"], given, ("ep", "minmax"), random.Random(fm["call_seed"]), inp,
+                       refusable=fm["nb_form"] != "int",
+                       flags={"one_feature_sample": len(c["ft"]) == 1, "feature_is_one_column_frame": (not two) and fm["feat_cls"] != "tsd"})
+            if r is None:
+                res.case((tag, n), nontrivial=True)
+                continue
+            if fm["twice"]:
+                second_call(res, op, f, given, r, inp)
+        if two:
+            tc, xy = r
+            got_labels = list(tc.keys())
+            cols = {cn: np.asarray(tc[lab], float).reshape(-1) for cn, lab in zip(("p", "q"), outlabels) if lab in tc}
+            labels_ok = [list(xy[0]), list(xy[1])] == [centres_of(lx, hx, nx), centres_of(ly, hy, ny)] and got_labels == outlabels
+        else:
+            tc = r
+            got_labels = list(tc.columns)
+            cols = {cn: tc.values[:, i].astype(float) for i, cn in zip(range(len(got_labels)), ("p", "q"))}
+            labels_ok = list(tc.index) == centres_of(lx, hx, nx) and got_labels == outlabels
+        res.count("part=" + ("cont2d" if two else "cont1d") + tag[4:])
         res.count("cont_" + ("explicit" if explicit else "inferred") + "_minmax")
         if not explicit and ((min(c["fx"]), max(c["fx"])) != (lx, hx) or (two and (min(c["fy"]), max(c["fy"])) != (ly, hy))):
             res.count("cont_inferred_minmax_of_feature_in_ep_narrower_than_whole_feature")
@@ -688,7 +1420,7 @@ def part_cont(res, tier, rng, nap):
         chs = [choices(c["st"][i], c["ft"], rows, ep) for i in keep]
         unique = all(len(ch) == 1 for ch in chs)
         last_edge = any(r is not None and key2(r) is not None and is_last(r) for ch in chs for r in ch)
-        res.case(("cont", n), nontrivial=len(keep) > 0 and any(occ))
+        res.case((tag, n), nontrivial=len(keep) > 0 and any(occ))
         if last_edge:
             res.count("cont_sample_attributed_to_last_edge")
         if not unique:
@@ -696,13 +1428,14 @@ def part_cont(res, tier, rng, nap):
         if c["nan_at"] and any(i in keep for i in c["nan_at"]):
             res.count("cont_nan_signal_value_in_ep")
         if not labels_ok:
-            res.violations.append({"key": {"op": op, "part": "labels"}, "what": "index/xy is not the bin centres", "input": inp})
+            res.violations.append({"key": {"op": op, "part": "labels"}, "what": "index/xy is not the bin centres, or the columns / keys are not the signal's column labels", "input": inp,
+                                   "impl": [str(x) for x in got_labels], "expected": [str(x) for x in outlabels]})
             continue
         # model vs implementation (integer signals)
         if n in mpos:
             cells = [x for r in out[mpos[n]].split(";") for x in r.split()]
             mexp = [None if x == "nan" else tuple(int(v) for v in x.split(":")) for x in cells]
-            if not cont_model_check(cols["p"], mexp) or ("q" in cols and not cont_model_check(cols["q"], [None if e is None else (e[0], 3 * e[1] + e[0]) for e in mexp])):
+            if not cont_model_check(cols["p"], mexp) or ("q" in cols and not cont_model_check(cols["q"], [None if e is None else (e[0], qa * e[1] + qb * e[0]) for e in mexp])):
                 res.disagreements.append({"op": op, "input": inp, "impl": {k: v.tolist() for k, v in cols.items()}, "model": mexp})
         # statement: SOME admissible attribution of the samples gives the returned values
         ok, ds, first = cont_judge(cols, {cn: sigs[cn] for cn in cols}, chs, key2, occ, is_last)
@@ -750,9 +1483,13 @@ def post_check(p, wl, ex, tol=1e-9):
 
 
 def part_decode(res, tier, rng, nap):
-    import pandas as pd
+    cases = gen_decode_cases(rng, 450 if tier == "quick" else 6000)
+    run_decode_cases(res, cases, rng, nap, "decode")
+    decode_occ_law(res)
+
+
+def gen_decode_cases(rng, n_cases):
     grid = [i * U for i in range(16)]
-    n_cases = 450 if tier == "quick" else 6000
     cases = []
     while len(cases) < n_cases:
         two = rng.random() < 0.35
@@ -786,6 +1523,59 @@ def part_decode(res, tier, rng, nap):
         cases.append(dict(two=two, nx=nx, ny=ny, lx=lx, ly=ly, sx=stepx, sy=stepy, nu=nu, rd=rd, tcn=tcn, ep=ep, b=b, units=units, with_feat=with_feat, fv=fv,
                           mode=rng.choice(["TsGroup", "dict", "TsdFrame"]), units_name=rng.choice(["s", "ms", "us"]), keyorder=keyorder, perm=perm,
                           wrong_key=rng.choice([1, 4, 11]), wrong_at=rng.randrange(nu)))
+    return cases
+
+
+BIN_FORMS = ("float", "float", "npfloat64", "int", "int", "npfloat32", "npint64", "arr0d")
+
+
+def bin_arg(b, unit, form):
+    """(bin_size argument, form used, documented?): b ticks in `unit`, as a Python float (legacy), np.float64, Python int (when whole), or - outside the documented
+    `float` - np.float32 / np.int64 / 0-d array; a form that cannot hold the value exactly falls back to the Python float"""
+    ut = {"s": 10**9, "ms": 10**6, "us": 10**3}[unit]
+    v = b / float(ut)
+    if form == "npfloat64":
+        return np.float64(v), form, True
+    if form == "int" and b % ut == 0:
+        return int(b // ut), form, True
+    if form == "npint64" and b % ut == 0:
+        return np.int64(b // ut), form, False
+    if form == "npfloat32" and float(np.float32(v)) == v:
+        return np.float32(v), form, False
+    if form == "arr0d":
+        return np.array(v), form, False
+    return v, "float", True
+
+
+def part_decode_forms(res, tier, frng, nap):
+    """argument forms of decode_1d / decode_2d: see res.rule"""
+    cases = gen_decode_cases(frng, 260 if tier == "quick" else 2200)
+    for c in cases:
+        mul, off = draw_frame(frng)
+        nu = c["nu"]
+        keyset = sorted(frng.choice(KEYSETS))
+        fm = {"frame": frame_name(mul, off), "keyset": keyset, "tc_d": frng.choice(["float64", "float64", "int64", "float32"]), "tc_index": frng.choice(["float", "float", "int"]),
+              "bin": frng.choice(BIN_FORMS), "units_omitted_when_s": frng.random() < 0.5, "ep_form": frng.choice(EP_FORMS), "group": draw_group_form(frng),
+              "frame_d": frng.choice(["int64", "int64", "float64", "float32", "int32", "int16", "int8", "uint8", "uint16", "uint64"]), "frame_via": frng.choice(["count", "count_dtype", "rebuilt"]),
+              "frame_hist": frng.choice(["none", "none", "restrict", "arith", "getslice", "saveload"]), "frame_cols": frng.choice(["int", "int", "str"]),
+              "feature": draw_series_form(frng), "feat_labels": frng.choice([["x", "y"], ["x", "y"], ["b", "a"], [1, 0], None]), "xy": frng.choice(["tuple", "tuple", "list", "f32"]),
+              "call_seed": frng.randrange(2**30), "twice": frng.random() < 0.15}
+        if c["wrong_key"] in keyset:
+            c["wrong_key"] = 555
+        if frng.random() < 0.04:
+            c["ep"] = []                      # degenerate argument: nothing to decode
+        fm["units_case"] = frng.choice(["asis"] * 7 + ["upper"])          # 'MS' is not a documented unit: a clean refusal, or the answer for ms
+        for f in ("ep", "units"):
+            c[f] = shift(c[f], mul, off)
+        c["b"] *= mul
+        c.update(form=fm, wide=(shift(-U, mul, off), shift(17 * U, mul, off)), extra=(shift(16 * U, mul, off), shift(17 * U, mul, off)), feat_t0=shift(0, mul, off), feat_dt=U * mul)
+    run_decode_cases(res, cases, frng, nap, "decode_forms")
+    decode_empty_group(res, tier, frng, nap)
+    decode_pipeline(res, tier, frng, nap)
+
+
+def run_decode_cases(res, cases, rng, nap, tag):
+    import pandas as pd
     # model: count rows + posterior per distinct count vector
     lines = ["rows\t%s\t%d\t%s" % (C.fmt_iset(c["ep"]), c["b"], "\t".join(C.fmt_ints(sp) for sp in c["units"])) for c in cases]
     out_rows = C.run_model(lines, driver="driver_c17")
@@ -814,7 +1604,6 @@ def part_decode(res, tier, rng, nap):
     for (n, cnt), o in zip(pmeta, out_post):
         f = o.split("|")
         model_post[(n, cnt)] = ([Fr(x) for x in f[0].split()], [Fr(x) for x in f[1].split()], int(f[2]), f[3])
-    keys = [3, 5, 9]
     d2_lines, d2_meta = [], []
     for n, c in enumerate(cases):
         nx, ny, nu, two, ep, b = c["nx"], c["ny"], c["nu"], c["two"], c["ep"], c["b"]
@@ -822,9 +1611,10 @@ def part_decode(res, tier, rng, nap):
         hx, hy = c["lx"] + nx * c["sx"], c["ly"] + ny * c["sy"]
         cx, cy = centres_of(c["lx"], hx, nx), centres_of(c["ly"], hy, ny)
         rates = [[Fr(v, c["rd"]) for v in r] for r in c["tcn"]]
-        ks = keys[:nu]
-        epo = iset_obj(nap, ep)
-        wide = iset_obj(nap, [(-U, 17 * U)])
+        fm = c.get("form")
+        ks = ([3, 5, 9] if fm is None else fm["keyset"])[:nu]
+        wd, extra = c.get("wide", (-U, 17 * U)), c.get("extra", (16 * U, 17 * U))
+        wide = iset_obj(nap, [wd])
         f = {"s": 1e9, "ms": 1e6, "us": 1e3}[c["units_name"]]
         ko = c["keyorder"]
         tck = [ks[i] for i in c["perm"]] if ko == "tc_permuted" else list(ks)                 # order of the tuning-curve columns / dict keys
@@ -834,54 +1624,166 @@ def part_decode(res, tier, rng, nap):
         gorder = c["perm"] if ko == "group_permuted" else list(range(nu))                     # insertion order of the group
         inp = {k: c[k] for k in ("ep", "b", "units", "tcn", "rd", "mode", "units_name", "with_feat", "fv")}
         inp.update(nb=[nx, ny] if two else nx, centres=[cx, cy] if two else cx, tuning_curve_keys=tck, group_keys=[gk[u] for u in gorder])
-        res.count("part=" + ("decode_2d" if two else "decode_1d"))
+        res.count("part=" + ("decode_2d" if two else "decode_1d") + tag[6:])
         res.count("decode_group=" + c["mode"])
         res.count("decode_units=" + c["units_name"])
         res.count("decode_prior=" + ("occupancy" if c["with_feat"] else "uniform"))
         res.count("decode_keys=%s/%s" % (ko, c["mode"]))
         kinfo = {"group": c["mode"], "keys": ko}
-        if c["mode"] == "TsGroup":
-            grp = nap.TsGroup({gk[u]: nap.Ts(G.arr(c["units"][u])) for u in gorder}, time_support=wide)
-        elif c["mode"] == "dict":
-            grp = {gk[u]: nap.Ts(G.arr(c["units"][u])) for u in gorder}
+        label = {k: k for k in ks}            # how unit key k is spelt in the tuning curves (and in a pre-binned frame's columns)
+        if fm is None:
+            epo = iset_obj(nap, ep)
+            if c["mode"] == "TsGroup":
+                grp = nap.TsGroup({gk[u]: nap.Ts(G.arr(c["units"][u])) for u in gorder}, time_support=wide)
+            elif c["mode"] == "dict":
+                grp = {gk[u]: nap.Ts(G.arr(c["units"][u])) for u in gorder}
+            else:
+                # pre-binned counts on a support WIDER than ep: rows outside ep must not be decoded
+                ep2 = ep + [(16 * U, 17 * U)] if rng.random() < 0.5 else ep
+                g0 = nap.TsGroup({gk[u]: nap.Ts(G.arr(c["units"][u] + [16 * U])) for u in gorder}, time_support=wide)
+                grp = g0.count(b / 1e9, iset_obj(nap, ep2))
+                if ep2 is not ep:
+                    res.count("decode_prebinned_rows_outside_ep")
+                c["frame_t"] = [C.to_ns(x) for x in grp.t]
+                if len(grp) == 0:
+                    res.case((tag, n), nontrivial=False)
+                    continue
         else:
-            # pre-binned counts on a support WIDER than ep: rows outside ep must not be decoded
-            ep2 = ep + [(16 * U, 17 * U)] if rng.random() < 0.5 else ep
-            g0 = nap.TsGroup({gk[u]: nap.Ts(G.arr(c["units"][u] + [16 * U])) for u in gorder}, time_support=wide)
-            grp = g0.count(b / 1e9, iset_obj(nap, ep2))
-            if ep2 is not ep:
-                res.count("decode_prebinned_rows_outside_ep")
-            c["frame_t"] = [C.to_ns(x) for x in grp.t]
-            if len(grp) == 0:
-                res.case(("decode", n), nontrivial=False)
-                continue
+            inp.update(form=fm, keyset=ks)
+            res.count("form:frame=" + fm["frame"])
+            epo = checked_iset(res, nap, ep, fm["ep_form"], inp, "ep")
+            res.count("form:decode_ep=%s" % ("empty" if not ep else "%d_intervals" % len(ep)))
+            gf = dict(fm["group"], order="given") if ko == "group_permuted" else fm["group"]
+            if c["mode"] == "TsGroup":
+                grp = build_group(res, nap, [c["units"][u] for u in gorder], [gk[u] for u in gorder], gf, wd, inp)
+            elif c["mode"] == "dict":
+                kf = {"int": int, "str": str, "float": float, "npint": np.int64}[gf["key"]]
+                order = gorder if gf["order"] == "given" else sorted(gorder, key=lambda u: gk[u], reverse=gf["order"] == "reversed")
+                grp = {}
+                for u in order:
+                    t, tu, used = t_arg(nap, c["units"][u], gf["t"])
+                    grp[kf(gk[u])] = (nap.Tsd(t, np.arange(len(c["units"][u]), dtype=np.float64), time_units=tu) if gf["member"] == "tsd" or (gf["member"] == "mixed" and u % 2 == 0)
+                                      else nap.Ts(t, time_units=tu))
+                    res.count("form:dict_member_t=" + used)
+                res.count("form:dict_members=" + gf["member"])
+                res.count("form:dict_keys=" + gf["key"])
+            else:
+                ep2 = ep + [extra] if rng.random() < 0.5 else ep
+                g0 = nap.TsGroup({gk[u]: nap.Ts(G.arr(c["units"][u] + [extra[0]])) for u in gorder}, time_support=wide)
+                dt = np.dtype(fm["frame_d"])
+                if fm["frame_via"] == "count_dtype":
+                    grp = g0.count(b / 1e9, iset_obj(nap, ep2), dtype=dt)
+                else:
+                    grp = g0.count(b / 1e9, iset_obj(nap, ep2))
+                if ko == "same" and fm["frame_cols"] == "str":
+                    label = {k: "u%d" % k for k in ks}
+                if fm["frame_via"] == "rebuilt" or label[ks[0]] != ks[0]:
+                    t, tu, used = t_arg(nap, [C.to_ns(x) for x in grp.t], fm["feature"]["t"])
+                    grp = nap.TsdFrame(t=t, d=grp.values.astype(dt), time_units=tu, time_support=grp.time_support, columns=[label.get(k, k) for k in grp.columns])
+                    res.count("form:prebinned_t=" + used)
+                hist = fm["frame_hist"]
+                if hist == "restrict":
+                    grp = grp.restrict(iset_obj(nap, [(wd[0] - W, wd[1] + W)]).intersect(grp.time_support))
+                elif hist == "arith":
+                    grp = grp * 1
+                elif hist == "getslice":
+                    grp = grp[0:len(grp)]
+                elif hist == "saveload":
+                    grp = _saveload(nap, grp, "cnt")
+                res.count("form:prebinned_dtype=%s" % grp.values.dtype)
+                res.count("form:prebinned_via=" + fm["frame_via"])
+                res.count("form:prebinned_hist=" + hist)
+                res.count("form:prebinned_columns=" + ("str" if label[ks[0]] != ks[0] else "int"))
+                if ep2 is not ep:
+                    res.count("decode_prebinned_rows_outside_ep")
+                c["frame_t"] = [C.to_ns(x) for x in grp.t]
+                if len(grp) == 0:
+                    res.case((tag, n), nontrivial=False)
+                    continue
+        tck = [label[k] for k in tck]
+        unit_of = {label[k]: i for i, k in enumerate(ks)}
         op = "decode_2d" if two else "decode_1d"
         kw = {"time_units": c["units_name"]}
+        ft = [c.get("feat_t0", 0) + i * c.get("feat_dt", U) for i in range(len(c["fv"]))]
+        refusable = False
         try:
             if two:
-                tcd = {k: np.array([[float(rates[i * ny + j][ks.index(k)]) for j in range(ny)] for i in range(nx)]) for k in tck}
-                if c["with_feat"]:
-                    ft = [i * U for i in range(len(c["fv"]))]
+                tcd = {k: np.array([[float(rates[i * ny + j][unit_of[k]]) for j in range(ny)] for i in range(nx)]) for k in tck}
+                if c["with_feat"] and fm is None:
                     kw["features"] = nap.TsdFrame(G.arr(ft), np.array(c["fv"], dtype=float), time_support=wide, columns=["x", "y"])
                 if c["with_feat"] and (nx < 2 or ny < 2):
                     res.count("decode_one_bin_with_prior")
-                dec, p = nap.decode_2d(tcd, grp, epo, b / f, (np.array(cx), np.array(cy)), **kw)
+                if fm is None:
+                    dec, p = nap.decode_2d(tcd, grp, epo, b / f, (np.array(cx), np.array(cy)), **kw)
+                else:
+                    if fm["tc_d"] == "float32" or (fm["tc_d"] == "int64" and c["rd"] == 1):
+                        tcd = {k: v.astype(fm["tc_d"]) for k, v in tcd.items()}
+                    res.count("form:tuning_curves_dtype=%s" % (tcd[tck[0]].dtype if tck else "none"))
+                    xy = {"tuple": (np.array(cx), np.array(cy)), "list": [np.array(cx), np.array(cy)], "f32": (np.array(cx, dtype=np.float32), np.array(cy, dtype=np.float32))}[fm["xy"]]
+                    res.count("form:xy=" + fm["xy"])
+                    bs, bused, documented = bin_arg(b, c["units_name"], fm["bin"])
+                    refusable = not documented
+                    given = {"tuning_curves": tcd, "group": grp, "ep": epo, "bin_size": bs, "xy": xy}
+                    if c["with_feat"]:
+                        given["features"] = build_series(res, nap, "frame", ft, [[v[0] for v in c["fv"]], [v[1] for v in c["fv"]]], fm["feature"], [wd], fm["feat_labels"], inp, "decode_features")
+                    if fm["units_case"] == "upper":
+                        given["time_units"], refusable = c["units_name"].upper(), True
+                        res.count("form:time_units_in_upper_case")
+                    elif not (c["units_name"] == "s" and fm["units_omitted_when_s"]):
+                        given["time_units"] = c["units_name"]
+                    args, kwargs, info = plan_call(random.Random(fm["call_seed"]), ["tuning_curves", "group", "ep", "bin_size", "xy", "time_units", "features"], given, ("features",))
+                    inp["call"] = dict(info, bin_size_form=bused)
+                    res.count("form:call=" + info["style"])
+                    res.count("form:bin_size=" + bused)
+                    res.count("form:time_units_passed=%s" % ("time_units" in given))
+                    for q in info["explicit_none"]:
+                        res.count("form:explicit_None=" + q)
+                    dec, p = nap.decode_2d(*args, **kwargs)
+                    if fm["twice"]:
+                        second_call(res, op, nap.decode_2d, given, (dec, p), inp)
                 tt = [C.to_ns(x) for x in dec.t]
                 if np.asarray(p).shape[0] != len(tt):
-                    res.case(("decode", n), nontrivial=True)
+                    res.case((tag, n), nontrivial=True)
                     res.violations.append({"key": {"op": op, "part": "prebinned_rows_outside_ep" if c["mode"] == "TsdFrame" else "posterior_rows"},
                                            "what": "the posterior array has %d rows but the decoded series has %d time bins (rows of a pre-binned TsdFrame lying outside ep are not removed from the posterior)"
                                                    % (np.asarray(p).shape[0], len(tt)), "input": inp, "impl": [int(np.asarray(p).shape[0]), len(tt)], "expected": len(c["rows"])})
                     continue
                 P = np.asarray(p).reshape(len(tt), nbtot)
-                dv = [tuple(r) for r in dec.values]
+                dv = [tuple(float(v) for v in r) for r in dec.values]
                 cen = [(cx[i], cy[j]) for i in range(nx) for j in range(ny)]
             else:
-                tcd = pd.DataFrame(index=cx, data={k: [float(rates[i][ks.index(k)]) for i in range(nx)] for k in tck})
-                if c["with_feat"]:
-                    ft = [i * U for i in range(len(c["fv"]))]
+                tcd = pd.DataFrame(index=cx, data={k: [float(rates[i][unit_of[k]]) for i in range(nx)] for k in tck})
+                if c["with_feat"] and fm is None:
                     kw["feature"] = nap.Tsd(G.arr(ft), np.array([v[0] for v in c["fv"]], dtype=float), time_support=wide)
-                dec, p = nap.decode_1d(tcd, grp, epo, b / f, **kw)
+                if fm is None:
+                    dec, p = nap.decode_1d(tcd, grp, epo, b / f, **kw)
+                else:
+                    if fm["tc_d"] == "float32" or (fm["tc_d"] == "int64" and c["rd"] == 1):
+                        tcd = tcd.astype(fm["tc_d"])
+                    if fm["tc_index"] == "int" and all(x == int(x) for x in cx):
+                        tcd.index = [int(x) for x in cx]
+                        res.count("form:tuning_curves_index=int")
+                    res.count("form:tuning_curves_dtype=%s" % (tcd.values.dtype if tck else "none"))
+                    bs, bused, documented = bin_arg(b, c["units_name"], fm["bin"])
+                    refusable = not documented
+                    given = {"tuning_curves": tcd, "group": grp, "ep": epo, "bin_size": bs}
+                    if c["with_feat"]:
+                        given["feature"] = build_series(res, nap, "tsd", ft, [[v[0] for v in c["fv"]]], fm["feature"], [wd], None, inp, "decode_feature")
+                    if fm["units_case"] == "upper":
+                        given["time_units"], refusable = c["units_name"].upper(), True
+                        res.count("form:time_units_in_upper_case")
+                    elif not (c["units_name"] == "s" and fm["units_omitted_when_s"]):
+                        given["time_units"] = c["units_name"]
+                    args, kwargs, info = plan_call(random.Random(fm["call_seed"]), ["tuning_curves", "group", "ep", "bin_size", "time_units", "feature"], given, ("feature",))
+                    inp["call"] = dict(info, bin_size_form=bused)
+                    res.count("form:call=" + info["style"])
+                    res.count("form:bin_size=" + bused)
+                    res.count("form:time_units_passed=%s" % ("time_units" in given))
+                    for q in info["explicit_none"]:
+                        res.count("form:explicit_None=" + q)
+                    dec, p = nap.decode_1d(*args, **kwargs)
+                    if fm["twice"]:
+                        second_call(res, op, nap.decode_1d, given, (dec, p), inp)
                 tt = [C.to_ns(x) for x in p.t]
                 P = p.values.reshape(len(tt), nbtot)
                 dv = [float(v) for v in dec.values]
@@ -890,7 +1792,10 @@ def part_decode(res, tier, rng, nap):
                     res.violations.append({"key": {"op": op, "part": "labels"}, "what": "posterior columns are not the bin centres / decoded and posterior time axes differ", "input": inp})
         except Exception as ex:
             one_bin = c["with_feat"] and (nx < 2 or (two and ny < 2))
-            res.case(("decode", n), nontrivial=True)
+            res.case((tag, n), nontrivial=True)
+            if refusable and isinstance(ex, (TypeError, ValueError)) and ("bin_size" in str(ex) or "unit" in str(ex)):
+                res.count("form:clean_refusal_of_undocumented_form")                # np.float32 / np.int64 / 0-d array where `float` is documented; 'MS' for 'ms'
+                continue
             if ko in ("tc_permuted", "mismatched") and isinstance(ex, RuntimeError) and "tuning" in str(ex):
                 res.count("decode_refused_keys=%s/%s" % (ko, c["mode"]))        # the documented refusal
                 continue
@@ -898,7 +1803,7 @@ def part_decode(res, tier, rng, nap):
                                    "what": "decode raised %s: %s" % (type(ex).__name__, str(ex)[:80]), "input": inp})
             continue
         if ko == "mismatched":
-            res.case(("decode", n), nontrivial=True)
+            res.case((tag, n), nontrivial=True)
             res.violations.append({"key": dict({"op": op, "part": "unit_keys"}, **kinfo),
                                    "what": "the group's keys %s are not the tuning curves' keys %s, yet a posterior is returned (units paired by position) instead of the documented RuntimeError"
                                            % (sorted(gk), tck), "input": inp, "impl": np.asarray(P).tolist()[:3], "expected": "RuntimeError"})
@@ -912,7 +1817,7 @@ def part_decode(res, tier, rng, nap):
             am = int(np.argmax(P[0])) if len(tt) and not np.all(np.isnan(P[0])) else 0
             d2_lines.append("decode2d_rows\t%s\t%d\t%d\t%s" % (C.fmt_iset(ep), ny, am, C.fmt_ints(ft_)))
             d2_meta.append((inp, ft_, tt, int(P.shape[0]), am, dv[0] if len(tt) else None, cen, ny, two, c["mode"]))
-        res.case(("decode", n), nontrivial=len(rows) > 0 and any(any(r[1]) for r in rows))
+        res.case((tag, n), nontrivial=len(rows) > 0 and any(any(r[1]) for r in rows))
         if [2 * t for t in tt] != [r[0] for r in rows] and not all(abs(2 * t - r[0]) <= 1 for t, r in zip(tt, rows)) or len(tt) != len(rows):
             res.violations.append({"key": {"op": op, "part": "time_bins"}, "what": "posterior time axis is not the bin grid of count(bin_size, ep)", "input": inp,
                                    "impl": tt, "expected (2*centre)": [r[0] for r in rows]})
@@ -966,6 +1871,154 @@ def part_decode(res, tier, rng, nap):
             i, j = [int(v) for v in f[2].split()]
             if i * ny + j >= len(cen) or tuple(cen[i * ny + j]) != tuple(dv0):
                 res.disagreements.append({"op": "decode_2d unravel", "input": inp, "impl": dv0, "model": [i, j], "argmax": am})
+
+
+def decode_rows(ep, b, units):
+    """time bins of count(bin_size, ep): (2 x centre, counts per unit)"""
+    return [(2 * l + b, tuple(sum(1 for t in sp if s <= t <= e and l <= t < l + b) for sp in units)) for s, e, l in count_grid(ep, b)]
+
+
+def decode_empty_group(res, tier, frng, nap):
+    """degenerate receiver: NO unit (empty TsGroup / empty dict / pre-binned frame without column, tuning curves without column): the statement's posterior is the
+    normalised prior (empty product, zero summed rate).  The documented signature does not say that an empty group is accepted: a clean exception is accepted too."""
+    import pandas as pd
+    grid = [i * U for i in range(16)]
+    for n in range(24 if tier == "quick" else 100):
+        mul, off = draw_frame(frng)
+        nx = frng.choice([2, 3, 4])
+        lo, step = frng.choice([0, 1]), frng.choice([1, 2])
+        cx = centres_of(lo, lo + nx * step, nx)
+        ep = shift(rand_iset(frng, grid, 2), mul, off)
+        b = frng.choice([U, 2 * U, 4 * U]) * mul
+        unit = frng.choice(["s", "ms", "us"])
+        mode = frng.choice(["TsGroup", "dict", "TsdFrame"])
+        with_feat = frng.random() < 0.5
+        fv = [frng.randint(lo - 1, lo + nx * step + 1) for _ in range(frng.randint(2, 7))]
+        wd = (shift(-U, mul, off), shift(17 * U, mul, off))
+        inp = {"ep": ep, "b": b, "units_name": unit, "mode": mode, "centres": cx, "fv": fv if with_feat else None, "units": []}
+        res.count("form:decode_empty_group=" + mode)
+        res.case(("decode_empty_group", n), nontrivial=True)
+        epo = checked_iset(res, nap, ep, frng.choice(EP_FORMS), inp, "ep")
+        g = nap.TsGroup({}, time_support=iset_obj(nap, [wd]))
+        grp = g if mode == "TsGroup" else {} if mode == "dict" else g.count(b / 1e9, epo)
+        kw = {}
+        if with_feat:
+            kw["feature"] = nap.Tsd(G.arr([shift(i * U, mul, off) for i in range(len(fv))]), np.array(fv, dtype=float), time_support=iset_obj(nap, [wd]))
+        try:
+            dec, p = nap.decode_1d(pd.DataFrame(index=cx), grp, epo, b / {"s": 1e9, "ms": 1e6, "us": 1e3}[unit], unit, **kw)
+            tt = [C.to_ns(x) for x in p.t]
+            P = np.asarray(p.values, dtype=float).reshape(len(tt), nx)
+        except Exception as ex:
+            res.count("form:decode_empty_group_refused=" + type(ex).__name__)
+            continue
+        rows = decode_rows(ep, b, [])
+        occ = [sum(1 for v in fv if obin(v, lo, lo + nx * step, nx) == k) for k in range(nx)] if with_feat else [1] * nx
+        if len(tt) != len(rows) or not all(abs(2 * t - r[0]) <= 1 for t, r in zip(tt, rows)):
+            res.violations.append({"key": {"op": "decode_1d", "part": "time_bins", "empty_group": True}, "what": "posterior time axis is not the bin grid of count(bin_size, ep)", "input": inp, "impl": tt,
+                                   "expected (2*centre)": [r[0] for r in rows]})
+            continue
+        tot = sum(occ)
+        for ti in range(len(tt)):
+            good = bool(np.all(np.isnan(P[ti]))) if tot == 0 else bool(np.all(np.abs(P[ti] - np.array(occ, dtype=float) / tot) <= 1e-12))
+            if not good:
+                res.violations.append({"key": {"op": "decode_1d", "part": "posterior", "empty_group": True}, "what": "without any unit the posterior must be the normalised prior", "input": inp,
+                                       "impl": P[ti].tolist(), "expected": [o / tot if tot else None for o in occ]})
+                break
+
+
+def decode_pipeline(res, tier, frng, nap):
+    """multi-step history: the tuning curves RETURNED by compute_1d_tuning_curves / compute_2d_tuning_curves are handed as they are (DataFrame with float-centre index and unit-key
+    columns; dict + list of centre arrays) to decode_1d / decode_2d, with the same live group (or its restriction, its dict, its counts) and the same live feature as occupancy prior.
+    The rates are the returned floats taken as exact rationals; cases whose curves are not positive everywhere are outside the quantifier and skipped.  Statement oracle only."""
+    grid = [i * U for i in range(16)]
+    done = 0
+    for n in range(50 if tier == "quick" else 400):
+        mul, off = draw_frame(frng)
+        two = frng.random() < 0.4
+        nx, ny = (2, 2) if two else (frng.choice([2, 3]), 1)
+        k = 8
+        ft = [2 * i * U for i in range(k)]
+        cells = [(i, j) for i in range(nx) for j in range(ny)]
+        rows_f = cells + [frng.choice(cells) for _ in range(k - len(cells))]
+        frng.shuffle(rows_f)
+        nu = frng.choice([1, 2, 3])
+        keys = list(frng.choice(KEYSETS))[:nu]
+        units = [sorted(grid + [frng.choice(grid) for _ in range(frng.randint(0, 5))]) for _ in range(nu)]
+        ep = rand_iset(frng, grid, 2)
+        b = frng.choice([U, 2 * U, 2 * U, 4 * U])
+        ft, units, ep, b = shift(ft, mul, off), shift(units, mul, off), shift(ep, mul, off), b * mul
+        wd = (shift(-U, mul, off), shift(17 * U, mul, off))
+        unit = frng.choice(["s", "ms", "us"])
+        mode = frng.choice(["TsGroup", "restricted", "dict", "TsdFrame"])
+        with_feat = frng.random() < 0.6
+        inp = {"ft": ft, "feature_rows": rows_f, "units": dict(zip(keys, units)), "ep": ep, "b": b, "units_name": unit, "mode": mode, "with_feat": with_feat, "two": two, "frame": frame_name(mul, off)}
+        sup = iset_obj(nap, [wd])
+        g = nap.TsGroup({kk: nap.Ts(G.arr(sp)) for kk, sp in zip(keys, units)}, time_support=sup)
+        epo = iset_obj(nap, ep)
+        op = "decode_2d" if two else "decode_1d"
+        res.case(("decode_pipeline", n), nontrivial=True)
+        try:
+            if two:
+                feat = nap.TsdFrame(G.arr(ft), np.array(rows_f, dtype=float), time_support=sup, columns=["x", "y"])
+                tc, xy = nap.compute_2d_tuning_curves(g, feat, (nx, ny), minmax=(0, nx, 0, ny))
+                vals = {kk: np.asarray(tc[kk], dtype=float).reshape(-1) for kk in tc}
+                cen = [(float(x), float(y)) for x in xy[0] for y in xy[1]]
+            else:
+                feat = nap.Tsd(G.arr(ft), np.array([r[0] for r in rows_f], dtype=float), time_support=sup)
+                tc = nap.compute_1d_tuning_curves(g, feat, nx, minmax=(0, nx))
+                vals = {kk: tc[kk].values.astype(float) for kk in tc.columns}
+                cen = [float(x) for x in tc.index]
+            if sorted(vals) != sorted(keys) or not all(np.all(np.isfinite(v)) and np.all(v > 0) for v in vals.values()):
+                res.count("form:pipeline_skipped_not_positive")
+                continue
+            grp = g if mode == "TsGroup" else g.restrict(epo) if mode == "restricted" else dict(g.items()) if mode == "dict" else g.count(b / 1e9, epo)
+            kw = {"time_units": unit}
+            if with_feat:
+                kw["features" if two else "feature"] = feat
+            bs = b / {"s": 1e9, "ms": 1e6, "us": 1e3}[unit]
+            if two:
+                dec, p = nap.decode_2d(tc, grp, epo, bs, xy, **kw)
+                tt = [C.to_ns(x) for x in dec.t]
+                P = np.asarray(p, dtype=float).reshape(len(tt), nx * ny)
+                dv = [tuple(float(v) for v in r) for r in dec.values]
+            else:
+                dec, p = nap.decode_1d(tc, grp, epo, bs, **kw)
+                tt = [C.to_ns(x) for x in p.t]
+                P = np.asarray(p.values, dtype=float).reshape(len(tt), nx)
+                dv = [float(v) for v in dec.values]
+        except Exception as ex:
+            res.violations.append({"key": {"op": op, "part": "exception", "exception": type(ex).__name__, "pipeline": True}, "what": "tuning curves -> decode raised %s: %s" % (type(ex).__name__, str(ex)[:80]), "input": inp})
+            continue
+        done += 1
+        res.count("form:pipeline=%s/%s" % (op, mode))
+        skeys = sorted(keys)
+        rates = [[Fr(float(vals[kk][i])) for kk in skeys] for i in range(nx * ny)]
+        rows = decode_rows(ep, b, [units[keys.index(kk)] for kk in skeys])
+        occ = [sum(1 for r in rows_f if r == cell) for cell in cells] if with_feat else [1] * (nx * ny)
+        tot = sum(occ)
+        if len(tt) != len(rows) or not all(abs(2 * t - r[0]) <= 1 for t, r in zip(tt, rows)):
+            res.violations.append({"key": {"op": op, "part": "time_bins", "pipeline": True}, "what": "posterior time axis is not the bin grid of count(bin_size, ep)", "input": inp, "impl": tt,
+                                   "expected (2*centre)": [r[0] for r in rows]})
+            continue
+        for ti, (_, cnt) in enumerate(rows):
+            wl = [Fr(o, tot) * math.prod(r ** q for r, q in zip(rates[i], cnt)) for i, o in enumerate(occ)]
+            ex = [Fr(b, 10**9) * sum(rates[i]) for i in range(nx * ny)]
+            res.evaluations += 1
+            if not post_check(P[ti], wl, ex):
+                res.violations.append({"key": {"op": op, "part": "posterior", "pipeline": True, "group": mode}, "what": "posterior is not the normalised prior(occupancy) x exp(-bin_size x sum of rates) x prod rate^count "
+                                       "for the tuning curves returned by compute_%dd_tuning_curves" % (2 if two else 1), "input": dict(inp, count=cnt), "impl": P[ti].tolist()})
+                break
+            lw = [math.log(w.numerator) - math.log(w.denominator) - float(e) for w, e in zip(wl, ex)]
+            near = [i for i, v in enumerate(lw) if max(lw) - v < 1e-9]
+            got = cen.index(dv[ti]) if dv[ti] in cen else None
+            if got is None or got not in near or got != int(np.argmax(P[ti])):
+                res.violations.append({"key": {"op": op, "part": "argmax", "pipeline": True}, "what": "decoded value is not the centre of the bin where the posterior is maximal", "input": dict(inp, count=cnt),
+                                       "impl": dv[ti], "expected": [cen[i] for i in near]})
+                break
+    res.extra["decode_pipeline_cases_judged"] = done
+
+
+def decode_occ_law(res):
     # the occupancy prior of decode_1d rebuilds the bin edges from the centres
     lines = []
     meta = []
@@ -979,6 +2032,26 @@ def part_decode(res, tier, rng, nap):
         res.case(("decode_occ", lo, hi, nb), nontrivial=True)
         if got != exp:
             res.disagreements.append({"op": "decode_occ", "input": [lo, hi, nb, fv], "model": got, "expected": exp})
+
+
+FORMS_RULE = (" (4) ARGUMENT FORMS (separate seeded streams; same oracles; the extracted model runs on every form, with a NaN / infinite feature value presented to it as an out-of-range integer, "
+              "and is skipped only for NaN / infinite signal values, the empty group and the tuning-curve -> decode pipeline): every public operation is also called on the same kind of cases with, drawn independently per case: "
+              "[time placement] the lattice 2^-9 s, 125 ms or 1 s, origin 0 / straddling 0 / all negative / 1e5 s away; "
+              "[time forms] every Ts / Tsd / TsdFrame / IntervalSet built from a float64 ndarray, list (of int when whole seconds), tuple, another object's TsIndex, its .t, a pandas Index / Series / DataFrame, "
+              "float32, ms and us floats, int64 ms, uint64 us, uint8 / int32 s, Python int / numpy scalar / 0-d array interval ends, array of pairs, copy of an IntervalSet, IntervalSet with metadata, the result of intersect / union / save+load; "
+              "[data dtypes] feature values, signal values, pre-binned counts and tuning curves as float64 / float32 / int64..int8 / uint8..uint64 / bool / Python list where the dtype holds the values exactly; "
+              "feature values NaN / +inf / -inf (explicit minmax: they fall in no bin), all-equal and all-zero features; signal values NaN, +inf, -inf (mean = that infinity; NaN when both signs), 0 / 1 sample signals; "
+              "[classes] group = TsGroup of Ts / Tsd / mixed, keys int / str / float / np.int64 in given / sorted / reversed insertion order, key sets not 0..n-1 and multi-digit, built from dict / list / raw arrays with time_units / with metadata / "
+              "bypass_check=True / default time support / restricted / sliced from a larger group / saved and loaded; 0, 1 or 3 units; feature = Tsd / one-column TsdFrame (default / named column); 2-d features and signals with default, string, "
+              "permuted-integer ([1,0]) and non-0..n-1 ([5,2]) column labels; signal = Tsd / one-column / two-column TsdFrame / the feature object itself (shared memory); decode group = TsGroup / dict (str, float keys; Tsd members) / "
+              "pre-binned TsdFrame (count(dtype=), rebuilt with another dtype / string columns, restricted / multiplied by 1 / sliced / saved and loaded); "
+              "[call forms] every parameter positionally and by keyword (all-keyword shuffled / maximal positional / random positional prefix), optional parameters left out, at an explicit None when None is the documented default, and given; "
+              "minmax as tuple / list / int, float64 and float32 ndarray / numpy scalars / floats; nb_bins int, tuple, np.int64 (undocumented: a clean TypeError / ValueError is accepted, an answer must satisfy the statement); "
+              "bin_size Python float / np.float64 / Python int, and np.float32 / np.int64 / 0-d array (undocumented: same rule); time_units s / ms / us by keyword, positionally and left out; xy tuple / list / float32 arrays; "
+              "tuning curves float64 / int64 / float32 with float or integer centres; "
+              "[degenerate] empty ep, one feature sample, up to 5 intervals, empty dict_ep, empty group (decode: posterior = prior), [histories] input objects after restrict / * 1 / np.abs / [0:n] / save+load, the same live objects "
+              "used for a second identical call (answers must be identical), the tuning curves RETURNED by compute_1d/2d_tuning_curves handed as they are to decode_1d/2d with the same live group and feature. "
+              "Every input object built in another form is first compared with the case (instants, values, support, labels): a mismatch is reported under op=input_form. Counts per class: distribution keys 'form:*'.")
 
 
 # ----------------------------------------------------------------------------------------------------------------
@@ -997,6 +2070,7 @@ def run(res, tier, seed):
                 "(tuning curves: tc x occupancy / feature.rate must be a count vector reachable by SOME admissible attribution, all enumerated; continuous: the values must be the per-bin means of SOME admissible attribution, "
                 "NaN where the bin is unvisited / holds no sample / holds a NaN; decode: units paired by key). "
                 "non-trivial = at least one spike/sample inside ep and a visited bin (decode: a non-zero count); distinct = distinct case index x unit")
+    res.rule += FORMS_RULE
     res.exhaustive = False
     rng = random.Random(seed * 31 + 17)
     part_hist(res, tier)
@@ -1006,6 +2080,15 @@ def run(res, tier, seed):
     part_tc2d(res, tier, rng, nap)
     part_cont(res, tier, rng, nap)
     part_decode(res, tier, rng, nap)
+    # (4) argument forms: separate seeded streams, so that the cases above are the same as before the widening
+    try:
+        part_discrete_forms(res, tier, random.Random(seed * 37 + 1), nap)
+        part_tc1d_forms(res, tier, random.Random(seed * 37 + 2), nap)
+        part_tc2d_forms(res, tier, random.Random(seed * 37 + 3), nap)
+        part_cont_forms(res, tier, random.Random(seed * 37 + 4), nap)
+        part_decode_forms(res, tier, random.Random(seed * 37 + 5), nap)
+    finally:
+        _cleanup_tmp()
 
 
 def search(res, seed):
